@@ -163,16 +163,16 @@ Proof.
   intros H d Hd. apply each_ok in H. rewrite Forall_forall in H. apply (dep_exists_ok names d tt); auto.
 Qed.
 
-Lemma check_dep_names_ok lg names t u :
-  check_dep_names lg names t = Ok u ->
-  refs_in names (t_task_dep t) /\ refs_in names (t_setup t) /\ (lg = false -> refs_in names (t_calc t)).
+Lemma check_dep_names_ok lv names t u :
+  check_dep_names lv names t = Ok u ->
+  refs_in names (t_task_dep t) /\ refs_in names (t_setup t) /\ (attr_strict lv = true -> refs_in names (t_calc t)).
 Proof.
   unfold check_dep_names. intros H.
   apply bind_ok in H. destruct H as [[] [H1 H]]. apply bind_ok in H. destruct H as [[] [H2 H]].
   split; [|split].
   - eapply each_dep_exists; eauto.
   - eapply each_dep_exists; eauto.
-  - intros ->. eapply each_dep_exists; eauto.
+  - intros E. rewrite E in H. eapply each_dep_exists; eauto.
 Qed.
 
 Lemma target_owner_name ts f o : target_owner ts f = Some o -> In o (map t_name ts).
@@ -237,20 +237,20 @@ Proof.
 Qed.
 
 (* what a successful TaskControl guarantees about its tasks *)
-Record control_post (lg : bool) (ts ts' : list task) : Prop := {
+Record control_post (lv : level) (ts ts' : list task) : Prop := {
   cp_names : map t_name ts' = map t_name ts;
   cp_nodup : NoDup (map t_name ts');
   cp_targets : NoDup (flat_map t_targets ts');
   cp_same : Forall2 same_but_deps ts ts';
   cp_refs : forall t, In t ts' -> refs_in (map t_name ts') (t_task_dep t) /\ refs_in (map t_name ts') (t_setup t) /\
-                                  (lg = false -> refs_in (map t_name ts') (t_calc t))
+                                  (attr_strict lv = true -> refs_in (map t_name ts') (t_calc t))
 }.
 
 Lemma Forall2_map_r {A B C} (R : A -> B -> Prop) (g : B -> C) l l' :
   Forall2 R l l' -> Forall2 (fun a c => exists b, R a b /\ c = g b) l (map g l').
 Proof. induction 1; simpl; constructor; eauto. Qed.
 
-Lemma control_ok fn lg ts ts' : control fn lg ts = Ok ts' -> control_post lg ts ts'.
+Lemma control_ok fn lv ts ts' : control fn lv ts = Ok ts' -> control_post lv ts ts'.
 Proof.
   unfold control. destruct (first_dup [] (map t_name ts)) eqn:Ed; try discriminate.
   intros H. apply bind_ok in H. destruct H as [ts1 [H1 H]]. apply bind_ok in H. destruct H as [[] [H2 H]].
@@ -287,45 +287,45 @@ Proof.
     + rewrite Hc. exact R3.
 Qed.
 
-(* ------------------------------------------------------------------ Task.__init__ *)
+(* ------------------------------------------------------------------ Task.__init__ (current code, level L2) *)
 Definition targ (get : attr -> option val) (a : attr) : val := match get a with Some v => v | None => dflt a end.
 Definition tgetargs (get : attr -> option val) : val :=
-  if truthy (targ get AGetargs) then targ get AGetargs else VDict [].
+  match targ get AGetargs with VNone => VDict [] | v => v end.
 Definition tvalue (get : attr -> option val) (a : attr) : val :=
   match a with AGetargs => tgetargs get | _ => targ get a end.
 Definition ldep_part (ldep : option string) : list val :=
   match ldep with Some e => if String.eqb e EmptyString then [] else [VStr e] | None => [] end.
 Definition getargs_step (get : attr -> option val) : res (list val) :=
-  if truthy (tgetargs get)
-  then if is_tuple (tvalue get AUptodate) && truthy (tvalue get AUptodate) then Crash AttributeError
-       else init_getargs (tgetargs get) (elems (tvalue get ASetup))
-  else Ok [].
+  if truthy (tgetargs get) then init_getargs L2 (tgetargs get) (elems (tvalue get ASetup)) else Ok [].
 
-Lemma task_init_eq lg nm get ldep hs :
-  task_init lg nm get ldep hs =
+Lemma task_init_eq nm get ldep hs :
+  task_init L2 nm get ldep hs =
   invalid_unless (is_str nm) (
-  do _ <- each (fun a => check_attr lg a (tvalue get a)) attr_order ;;
+  do _ <- each (fun a => check_attr L2 a (tvalue get a)) attr_order ;;
   match nm with
   | VStr name =>
     invalid_unless (negb (contains ch_eq name)) (
+    do _ <- each name_item (elems (tvalue get ASetup)) ;;
     do file_dep <- mapM path_item (elems (tvalue get AFileDep)) ;;
+    do _ <- each name_item (elems (tvalue get ATaskDep)) ;;
     do tw <- expand_task_dep (elems (tvalue get ATaskDep)) ;;
+    do _ <- each name_item (elems (tvalue get ACalcDep)) ;;
     do _ <- each calc_item (elems (tvalue get ACalcDep)) ;;
     do extra <- getargs_step get ;;
-    do _ <- each uptodate_item (elems (tvalue get AUptodate)) ;;
+    do _ <- each (uptodate_item L2) (elems (tvalue get AUptodate)) ;;
     do targets <- mapM path_item (elems (tvalue get ATargets)) ;;
     do _ <- clean_step (tvalue get AClean) ;;
     do _ <- each create_action (elems (tvalue get ATeardown)) ;;
     Ok {| t_name := name; t_task_dep := fst tw ++ ldep_part ldep; t_wild := snd tw;
           t_setup := elems (tvalue get ASetup) ++ extra;
           t_calc := elems (tvalue get ACalcDep); t_file_dep := file_dep; t_targets := targets;
-          t_has_subtask := hs; t_subtask_of := None |})
+          t_has_subtask := hs; t_subtask_of := None; t_implicit := false |})
   | _ => Invalid InvalidTask
   end).
 Proof. reflexivity. Qed.
 
-(* the documented table of accepted types/values (doc/tasks.rst, Task.valid_attr) *)
-Definition is_none (v : val) : bool := match v with VNone => true | _ => false end.
+(* the documented table of accepted types/values (doc/tasks.rst, Task.valid_attr); None is the
+   default of getargs *)
 Definition is_true (v : val) : bool := match v with VTrue => true | _ => false end.
 Definition type_ok (a : attr) (v : val) : bool :=
   match a with
@@ -340,13 +340,13 @@ Definition type_ok (a : attr) (v : val) : bool :=
 
 Definition chk_ok (a : attr) (v : val) : bool := type_ok a v && negb (attr_eqb a AGetargs && is_none v).
 
-Lemma check_attr_chk a v : check_attr false a v = if chk_ok a v then Ok tt else Invalid InvalidTask.
+Lemma check_attr_chk a v : check_attr L2 a v = if chk_ok a v then Ok tt else Invalid InvalidTask.
 Proof.
   unfold check_attr, chk_ok. destruct a; destruct v; simpl; try reflexivity.
   destruct n as [|[[p|p|]|[p|p|]|]|p]; reflexivity.
 Qed.
 
-Lemma check_attr_type_ok a v : check_attr false a v = Ok tt <-> (type_ok a v = true /\ (a = AGetargs -> v <> VNone)).
+Lemma check_attr_type_ok a v : check_attr L2 a v = Ok tt <-> (type_ok a v = true /\ (a = AGetargs -> v <> VNone)).
 Proof.
   rewrite check_attr_chk. unfold chk_ok. split.
   - destruct (type_ok a v) eqn:T; simpl; try discriminate.
@@ -358,11 +358,17 @@ Proof.
     + destruct v; simpl in E2; try discriminate. reflexivity.
 Qed.
 
+Lemma check_attr_nocrash lv a v c : check_attr lv a v <> Crash c.
+Proof. unfold check_attr. destruct (_ || _); discriminate. Qed.
+
 Lemma attr_order_all a : In a attr_order.
 Proof. destruct a; simpl; tauto. Qed.
 
 Lemma path_item_nocrash v c : path_item v <> Crash c.
 Proof. destruct v; simpl; discriminate. Qed.
+
+Lemma name_item_nocrash v c : name_item v <> Crash c.
+Proof. unfold name_item. destruct (is_str v); discriminate. Qed.
 
 Lemma create_action_nocrash v c : create_action v <> Crash c.
 Proof.
@@ -380,6 +386,12 @@ Proof. intros H Hc. apply mapM_crash in Hc. destruct Hc as [x [Hx Hc]]. apply (H
 Lemma clean_step_nocrash v c : type_ok AClean v = true -> clean_step v <> Crash c.
 Proof.
   destruct v; simpl; try discriminate; intros _; apply each_nocrash; intros; apply create_action_nocrash.
+Qed.
+
+Lemma each_name_str l u : each name_item l = Ok u -> forallb is_str l = true.
+Proof.
+  intros H. apply each_ok in H. rewrite Forall_forall in H. rewrite forallb_forall. intros x Hx.
+  specialize (H x Hx). unfold name_item in H. destruct (is_str x); auto. discriminate.
 Qed.
 
 (* _expand_task_dep *)
@@ -422,175 +434,108 @@ Proof.
   rewrite Hb in Hc. simpl in Hc. discriminate.
 Qed.
 
+Lemma is_str_hashable v : is_str v = true -> hashable v = true.
+Proof. destruct v; simpl; try discriminate; auto. Qed.
+
 (* _init_getargs *)
-Definition ga_safe (desc : val) : bool :=
-  match desc with
-  | VStr _ => true
-  | VList l | VTuple l => negb (Nat.eqb (length l) 2) || match l with x :: _ => hashable x | [] => true end
-  | VDict kv => negb (Nat.eqb (length kv) 2)
-  | _ => false
-  end.
-
-Lemma getargs_item_nocrash setup acc desc c : ga_safe desc = true -> getargs_item setup acc desc <> Crash c.
+Lemma getargs_item_nocrash setup acc desc c : getargs_item L2 setup acc desc <> Crash c.
 Proof.
-  unfold getargs_item. destruct desc; simpl; try discriminate.
-  - destruct (Nat.eqb (length l) 2) eqn:E; simpl; try discriminate.
-    destruct l as [|x l]; simpl; try discriminate. intros Hh. destruct (existsb (veq x) setup); try discriminate.
-    rewrite Hh. discriminate.
-  - destruct (Nat.eqb (length l) 2) eqn:E; simpl; try discriminate.
-    destruct l as [|x l]; simpl; try discriminate. intros Hh. destruct (existsb (veq x) setup); try discriminate.
-    rewrite Hh. discriminate.
-  - intros H. rewrite H. simpl. discriminate.
+  unfold getargs_item. simpl.
+  destruct desc as [| |[|p0 [|q [|r l]]]|[|p0 [|q [|r l]]]| | | | | | | | | |]; try discriminate;
+    destruct (is_str p0); discriminate.
 Qed.
 
-Lemma getargs_item_hashable setup acc desc acc' :
-  getargs_item setup acc desc = Ok acc' -> forallb hashable acc = true -> forallb hashable acc' = true.
-Proof.
-  unfold getargs_item. destruct (is_str desc); try discriminate. intros H Ha.
-  apply bind_ok in H. destruct H as [n [_ H]]. destruct (negb (Nat.eqb n 2)); try discriminate.
-  apply bind_ok in H. destruct H as [p0 [_ H]]. destruct (existsb (veq p0) setup).
-  - inversion H; subst; auto.
-  - destruct (hashable p0) eqn:Hp; try discriminate. inversion H; subst.
-    rewrite forallb_app, Ha. simpl. rewrite Hp. reflexivity.
-Qed.
-
-(* the task id named by a getargs value ends up among the setup tasks *)
-Lemma getargs_item_id setup acc desc acc' :
-  getargs_item setup acc desc = Ok acc' ->
+(* the task id named by an accepted getargs value is a str and ends up among the setup tasks *)
+Lemma getargs_item_ok setup acc desc acc' :
+  getargs_item L2 setup acc desc = Ok acc' ->
   (forall x, In x acc -> In x acc') /\
-  exists p0, py_item0 desc = Ok p0 /\ (existsb (veq p0) setup = true \/ In p0 acc').
+  (forallb is_str acc = true -> forallb is_str acc' = true) /\
+  exists p0, py_item0 desc = Ok p0 /\ is_str p0 = true /\ (existsb (veq p0) setup = true \/ In p0 acc').
 Proof.
-  unfold getargs_item. destruct (is_str desc); try discriminate. intros H.
-  apply bind_ok in H. destruct H as [n [_ H]]. destruct (negb (Nat.eqb n 2)); try discriminate.
-  apply bind_ok in H. destruct H as [p0 [Hp H]]. destruct (existsb (veq p0) setup) eqn:Ex.
-  - inversion H; subst. split; auto. exists p0; auto.
-  - destruct (hashable p0); try discriminate. inversion H; subst. split.
-    + intros x Hx. apply in_or_app; auto.
-    + exists p0. split; auto. right. apply in_or_app; simpl; auto.
+  unfold getargs_item. simpl.
+  destruct desc as [| |[|p0 [|q [|r l]]]|[|p0 [|q [|r l]]]| | | | | | | | | |]; try discriminate;
+    destruct (is_str p0) eqn:Es; try discriminate; intros H; inversion H; subst; clear H;
+    (destruct (existsb (veq p0) setup) eqn:Ex;
+     [ split; [auto | split; [auto | exists p0; simpl; auto]]
+     | split; [intros x Hx; apply in_or_app; auto
+              | split; [intros Ha; rewrite forallb_app, Ha; simpl; rewrite Es; reflexivity
+                       | exists p0; simpl; split; [reflexivity | split; [exact Es | right; apply in_or_app; simpl; auto]]]]]).
 Qed.
 
-Definition getargs_safe (g : val) : bool :=
-  match g with VDict kv => forallb ga_safe (map snd kv) | _ => true end.
-
-Lemma init_getargs_nocrash g setup c : getargs_safe g = true -> init_getargs g setup <> Crash c.
+Lemma init_getargs_nocrash g setup c : init_getargs L2 g setup <> Crash c.
 Proof.
-  destruct g; simpl; try discriminate. intros Hs Hc.
+  destruct g; simpl; try discriminate. intros Hc.
   apply (foldM_crash _ (fun _ => True)) in Hc; auto.
-  destruct Hc as [s0 [x [Hx [_ Hc]]]]. rewrite forallb_forall in Hs.
-  apply (getargs_item_nocrash setup s0 x c (Hs x Hx) Hc).
+  destruct Hc as [s0 [x [Hx [_ Hc]]]]. apply (getargs_item_nocrash setup s0 x c Hc).
 Qed.
 
-Lemma init_getargs_hashable g setup extra : init_getargs g setup = Ok extra -> forallb hashable extra = true.
+Lemma init_getargs_str g setup extra : init_getargs L2 g setup = Ok extra -> forallb is_str extra = true.
 Proof.
-  destruct g; simpl; try (intros H; inversion H; reflexivity). intros H.
-  apply (foldM_inv _ (fun acc => forallb hashable acc = true) _) with (s := []) (s' := extra) in H; auto.
-  intros s x s' _ Hs Hf. eapply getargs_item_hashable; eauto.
+  destruct g; simpl; try (intros H; inversion H; reflexivity).
+  apply (foldM_inv _ (fun acc => forallb is_str acc = true)); auto.
+  intros s x s' _ Hs Hf. apply getargs_item_ok in Hf. apply Hf; auto.
 Qed.
 
 Lemma init_getargs_ids kv setup extra :
-  init_getargs (VDict kv) setup = Ok extra ->
-  forall desc, In desc (map snd kv) -> exists p0, py_item0 desc = Ok p0 /\ (existsb (veq p0) setup = true \/ In p0 extra).
+  init_getargs L2 (VDict kv) setup = Ok extra ->
+  forall desc, In desc (map snd kv) ->
+  exists p0, py_item0 desc = Ok p0 /\ is_str p0 = true /\ (existsb (veq p0) setup = true \/ In p0 extra).
 Proof.
   simpl. generalize (map snd kv) as l. intros l. generalize (@nil val) as acc. revert extra.
+  assert (Mono : forall l a e, foldM (getargs_item L2 setup) l a = Ok e -> forall y, In y a -> In y e).
+  { induction l0 as [|x r IH]; simpl; intros a e H y Hy.
+    - inversion H; subst; auto.
+    - apply bind_ok in H. destruct H as [a1 [H1 H2]]. apply (IH _ _ H2). apply getargs_item_ok in H1. apply H1; auto. }
   induction l as [|x r IH]; simpl; intros extra acc H desc Hin; [tauto|].
   apply bind_ok in H. destruct H as [acc1 [H1 H2]].
-  assert (Mono : forall l a e, foldM (getargs_item setup) l a = Ok e -> forall y, In y a -> In y e).
-  { clear. induction l as [|x r IH]; simpl; intros a e H y Hy.
-    - inversion H; subst; auto.
-    - apply bind_ok in H. destruct H as [a1 [H1 H2]]. apply (IH _ _ H2). apply getargs_item_id in H1. apply H1; auto. }
   destruct Hin as [<-|Hin].
-  - apply getargs_item_id in H1. destruct H1 as [_ [p0 [Hp [Hs|Hs]]]]; exists p0; split; auto.
+  - apply getargs_item_ok in H1. destruct H1 as [_ [_ [p0 [Hp [Hs [Hi|Hi]]]]]]; exists p0; repeat split; auto.
     right. eapply Mono; eauto.
   - eapply IH; eauto.
 Qed.
 
 (* _init_uptodate *)
-Definition up_safe (v : val) : bool :=
-  match v with
-  | VTuple [] => false
-  | VTuple (_ :: a :: _) => iterable a
-  | _ => true
-  end.
-
-Lemma uptodate_item_nocrash v c : up_safe v = true -> uptodate_item v <> Crash c.
+Lemma uptodate_item_nocrash v c : uptodate_item L2 v <> Crash c.
 Proof.
   destruct v; simpl; try discriminate.
-  destruct l as [|x [|a r]]; simpl; try discriminate. intros ->. discriminate.
+  destruct l as [|x [|a r]]; simpl; try discriminate. destruct (iterable a); discriminate.
 Qed.
 
-(* the part of the input that can make Task.__init__ raise something else than InvalidTask *)
-Definition safe_args (get : attr -> option val) : bool :=
-  forallb is_str (elems (targ get ATaskDep)) && forallb hashable (elems (targ get ASetup)) &&
-  forallb hashable (elems (targ get ACalcDep)) &&
-  negb (is_tuple (targ get AUptodate) && truthy (targ get AUptodate) && truthy (targ get AGetargs)) &&
-  forallb up_safe (elems (targ get AUptodate)) && getargs_safe (targ get AGetargs).
+Lemma getargs_step_nocrash get c : getargs_step get <> Crash c.
+Proof. unfold getargs_step. destruct (truthy _); [apply init_getargs_nocrash | discriminate]. Qed.
 
-Definition task_safe (t : task) : bool :=
-  forallb is_str (t_task_dep t) && forallb is_str (t_wild t) && forallb hashable (t_setup t) && forallb hashable (t_calc t).
-
-Lemma safe_args_inv get : safe_args get = true ->
-  forallb is_str (elems (targ get ATaskDep)) = true /\ forallb hashable (elems (targ get ASetup)) = true /\
-  forallb hashable (elems (targ get ACalcDep)) = true /\
-  is_tuple (targ get AUptodate) && truthy (targ get AUptodate) && truthy (targ get AGetargs) = false /\
-  forallb up_safe (elems (targ get AUptodate)) = true /\ getargs_safe (targ get AGetargs) = true.
-Proof.
-  unfold safe_args. intros H.
-  apply andb_true_iff in H. destruct H as [H S6]. apply andb_true_iff in H. destruct H as [H S5].
-  apply andb_true_iff in H. destruct H as [H S4]. apply andb_true_iff in H. destruct H as [H S3].
-  apply andb_true_iff in H. destruct H as [S1 S2]. apply negb_true_iff in S4. auto 10.
-Qed.
-
-Lemma task_safe_inv t : task_safe t = true ->
-  forallb is_str (t_task_dep t) = true /\ forallb is_str (t_wild t) = true /\
-  forallb hashable (t_setup t) = true /\ forallb hashable (t_calc t) = true.
-Proof.
-  unfold task_safe. intros H.
-  apply andb_true_iff in H. destruct H as [H S4]. apply andb_true_iff in H. destruct H as [H S3].
-  apply andb_true_iff in H. destruct H as [S1 S2]. auto.
-Qed.
-
-Lemma tgetargs_truthy get : truthy (tgetargs get) = truthy (targ get AGetargs).
-Proof. unfold tgetargs. destruct (truthy (targ get AGetargs)) eqn:E; auto. Qed.
-
-Lemma tgetargs_safe get : getargs_safe (targ get AGetargs) = true -> getargs_safe (tgetargs get) = true.
-Proof. unfold tgetargs. destruct (truthy (targ get AGetargs)); auto. Qed.
-
-Lemma getargs_step_nocrash get c : safe_args get = true -> getargs_step get <> Crash c.
-Proof.
-  unfold getargs_step. intros H. destruct (safe_args_inv _ H) as (S1 & S2 & S3 & S4 & S5 & S6).
-  rewrite tgetargs_truthy. simpl tvalue. destruct (truthy (targ get AGetargs)) eqn:Et; try discriminate.
-  rewrite andb_true_r in S4. rewrite S4.
-  apply init_getargs_nocrash. apply tgetargs_safe. auto.
-Qed.
-
-Lemma getargs_step_hashable get extra : getargs_step get = Ok extra -> forallb hashable extra = true.
+Lemma getargs_step_str get extra : getargs_step get = Ok extra -> forallb is_str extra = true.
 Proof.
   unfold getargs_step. destruct (truthy (tgetargs get)); [|intros H; inversion H; reflexivity].
-  destruct (is_tuple _ && truthy _); try discriminate. apply init_getargs_hashable.
+  apply init_getargs_str.
 Qed.
 
-Lemma task_init_nocrash nm get ldep hs c :
-  safe_args get = true -> task_init false nm get ldep hs <> Crash c.
+(* no input makes Task.__init__ raise anything but InvalidTask *)
+Lemma task_init_nocrash nm get ldep hs c : task_init L2 nm get ldep hs <> Crash c.
 Proof.
-  intros Hsafe Hc. rewrite task_init_eq in Hc.
-  destruct (safe_args_inv _ Hsafe) as (S1 & S2 & S3 & S4 & S5 & S6).
+  intros Hc. rewrite task_init_eq in Hc.
   apply unless_crash in Hc. destruct Hc as [_ Hc].
   apply bind_crash in Hc. destruct Hc as [Hc|[[] [Hchk Hc]]].
-  { apply each_crash in Hc. destruct Hc as [a [_ Hc]]. unfold check_attr in Hc. destruct (_ || _); discriminate. }
+  { apply each_crash in Hc. destruct Hc as [a [_ Hc]]. revert Hc. apply check_attr_nocrash. }
   destruct nm; try discriminate.
   apply unless_crash in Hc. destruct Hc as [_ Hc].
+  apply bind_crash in Hc. destruct Hc as [Hc|[[] [Hsetup Hc]]].
+  { revert Hc. apply each_nocrash. intros; apply name_item_nocrash. }
   apply bind_crash in Hc. destruct Hc as [Hc|[fd [_ Hc]]].
   { revert Hc. apply mapM_nocrash. intros; apply path_item_nocrash. }
+  apply bind_crash in Hc. destruct Hc as [Hc|[[] [Hdeps Hc]]].
+  { revert Hc. apply each_nocrash. intros; apply name_item_nocrash. }
   apply bind_crash in Hc. destruct Hc as [Hc|[tw [_ Hc]]].
-  { revert Hc. apply expand_task_dep_nocrash. exact S1. }
+  { revert Hc. apply expand_task_dep_nocrash. eapply each_name_str; eauto. }
+  apply bind_crash in Hc. destruct Hc as [Hc|[[] [Hcalc Hc]]].
+  { revert Hc. apply each_nocrash. intros; apply name_item_nocrash. }
   apply bind_crash in Hc. destruct Hc as [Hc|[[] [_ Hc]]].
   { revert Hc. apply each_nocrash. intros x Hx. unfold calc_item.
-    simpl tvalue in Hx. rewrite forallb_forall in S3. rewrite (S3 x Hx). discriminate. }
+    apply each_name_str in Hcalc. rewrite forallb_forall in Hcalc. rewrite (is_str_hashable x (Hcalc x Hx)). discriminate. }
   apply bind_crash in Hc. destruct Hc as [Hc|[extra [_ Hc]]].
-  { revert Hc. apply getargs_step_nocrash. exact Hsafe. }
+  { revert Hc. apply getargs_step_nocrash. }
   apply bind_crash in Hc. destruct Hc as [Hc|[[] [_ Hc]]].
-  { revert Hc. apply each_nocrash. intros x Hx. apply uptodate_item_nocrash.
-    simpl tvalue in Hx. rewrite forallb_forall in S5. auto. }
+  { revert Hc. apply each_nocrash. intros; apply uptodate_item_nocrash. }
   apply bind_crash in Hc. destruct Hc as [Hc|[tg [_ Hc]]].
   { revert Hc. apply mapM_nocrash. intros; apply path_item_nocrash. }
   apply bind_crash in Hc. destruct Hc as [Hc|[[] [_ Hc]]].
@@ -608,6 +553,9 @@ Record init_post (get : attr -> option val) (ldep : option string) (hs : bool) (
   ip_types : forall a, type_ok a (tvalue get a) = true;
   ip_hs : t_has_subtask t = hs;
   ip_sub : t_subtask_of t = None;
+  ip_implicit : t_implicit t = false;
+  ip_names_str : forallb is_str (elems (tvalue get ATaskDep)) = true /\ forallb is_str (elems (tvalue get ASetup)) = true /\
+                 forallb is_str (elems (tvalue get ACalcDep)) = true;
   ip_deps : exists tw, expand_task_dep (elems (tvalue get ATaskDep)) = Ok tw /\
                        t_task_dep t = fst tw ++ ldep_part ldep /\ t_wild t = snd tw;
   ip_setup : exists extra, getargs_step get = Ok extra /\ t_setup t = elems (tvalue get ASetup) ++ extra;
@@ -617,15 +565,18 @@ Record init_post (get : attr -> option val) (ldep : option string) (hs : bool) (
 }.
 
 Lemma task_init_ok nm get ldep hs t :
-  task_init false nm get ldep hs = Ok t -> init_post get ldep hs nm t.
+  task_init L2 nm get ldep hs = Ok t -> init_post get ldep hs nm t.
 Proof.
   intros H. rewrite task_init_eq in H.
   apply unless_ok in H. destruct H as [_ H].
   apply bind_ok in H. destruct H as [[] [Hchk H]].
   destruct nm; try discriminate.
   apply unless_ok in H. destruct H as [Heq H].
+  apply bind_ok in H. destruct H as [[] [Hsetup H]].
   apply bind_ok in H. destruct H as [fd [Hfd H]].
+  apply bind_ok in H. destruct H as [[] [Hdeps H]].
   apply bind_ok in H. destruct H as [tw [Htw H]].
+  apply bind_ok in H. destruct H as [[] [Hcalc H]].
   apply bind_ok in H. destruct H as [[] [_ H]].
   apply bind_ok in H. destruct H as [extra [Hex H]].
   apply bind_ok in H. destruct H as [[] [_ H]].
@@ -636,6 +587,7 @@ Proof.
   - apply negb_true_iff in Heq. exact Heq.
   - intros a. apply each_ok in Hchk. rewrite Forall_forall in Hchk. specialize (Hchk a (attr_order_all a)).
     apply check_attr_type_ok in Hchk. apply Hchk.
+  - split; [|split]; eapply each_name_str; eauto.
   - exists tw. auto.
   - exists extra. auto.
 Qed.
@@ -643,20 +595,35 @@ Qed.
 Lemma forallb_sub {A} (p : A -> bool) l l' : (forall x, In x l' -> In x l) -> forallb p l = true -> forallb p l' = true.
 Proof. intros H F. rewrite forallb_forall in *. auto. Qed.
 
+Lemma forallb_impl {A} (p q : A -> bool) l : (forall x, p x = true -> q x = true) -> forallb p l = true -> forallb q l = true.
+Proof. intros H F. rewrite forallb_forall in *. auto. Qed.
+
 Lemma ldep_part_str ldep : forallb is_str (ldep_part ldep) = true.
 Proof. destruct ldep as [e|]; simpl; auto. destruct (String.eqb e EmptyString); reflexivity. Qed.
 
-Lemma task_init_safe nm get ldep hs t :
-  task_init false nm get ldep hs = Ok t -> safe_args get = true -> task_safe t = true.
+(* every reference a Task object holds is a str *)
+Definition task_safe (t : task) : bool :=
+  forallb is_str (t_task_dep t) && forallb is_str (t_wild t) && forallb is_str (t_setup t) && forallb is_str (t_calc t).
+
+Lemma task_safe_inv t : task_safe t = true ->
+  forallb is_str (t_task_dep t) = true /\ forallb is_str (t_wild t) = true /\
+  forallb is_str (t_setup t) = true /\ forallb is_str (t_calc t) = true.
 Proof.
-  intros H Hs. apply task_init_ok in H. destruct H.
-  destruct (safe_args_inv _ Hs) as (S1 & S2 & S3 & S4 & S5 & S6).
+  unfold task_safe. intros H.
+  apply andb_true_iff in H. destruct H as [H S4]. apply andb_true_iff in H. destruct H as [H S3].
+  apply andb_true_iff in H. destruct H as [S1 S2]. auto.
+Qed.
+
+Lemma task_init_safe nm get ldep hs t : task_init L2 nm get ldep hs = Ok t -> task_safe t = true.
+Proof.
+  intros H. apply task_init_ok in H. destruct H.
+  destruct ip_names_str0 as (S1 & S2 & S3).
   destruct ip_deps0 as [tw [Htw [Hd Hw]]]. destruct ip_setup0 as [extra [Hex Hse]].
-  pose proof (expand_task_dep_sub _ _ Htw) as Hsub. simpl tvalue in *.
+  pose proof (expand_task_dep_sub _ _ Htw) as Hsub.
   unfold task_safe. rewrite Hd, Hw, Hse, ip_calc0, !forallb_app.
   rewrite (forallb_sub is_str _ (fst tw) (fun x Hx => Hsub x (in_or_app _ _ _ (or_introl Hx))) S1).
   rewrite (forallb_sub is_str _ (snd tw) (fun x Hx => Hsub x (in_or_app _ _ _ (or_intror Hx))) S1).
-  rewrite ldep_part_str, S2, S3, (getargs_step_hashable _ _ Hex). reflexivity.
+  rewrite ldep_part_str, S2, S3, (getargs_step_str _ _ Hex). reflexivity.
 Qed.
 
 (* ------------------------------------------------------------------ dicts, items, the OrderedDict *)
@@ -665,28 +632,15 @@ Definition dict_get (d : tdict) (force : bool) : attr -> option val :=
 Definition obj_get (attrs : list (attr * val)) : attr -> option val :=
   fun a => match aget attrs a with Some v => Some v | None => if attr_eqb a AActions then Some VNone else None end.
 
-Lemma safe_args_force d force : safe_args (dict_get d force) = safe_args (dict_get d false).
-Proof. destruct force; reflexivity. Qed.
-
-Definition item_safe (it : item) : bool :=
-  match it with
-  | IDict d => safe_args (dict_get d false) && match dget d KBasename with Some v => hashable v | None => true end
-  | ITaskObj _ attrs => safe_args (obj_get attrs)
-  | _ => true
-  end.
-Definition result_safe (r : item) : bool :=
-  match r with IGen l => forallb item_safe (flat_map flat l) | it => item_safe it end.
-
-Lemma dict_to_task_nocrash nm d force c :
-  safe_args (dict_get d false) = true -> dict_to_task false nm d force <> Crash c.
+Lemma dict_to_task_nocrash nm d force c : dict_to_task L2 nm d force <> Crash c.
 Proof.
-  intros Hs Hc. unfold dict_to_task in Hc.
+  intros Hc. unfold dict_to_task in Hc.
   apply unless_crash in Hc. destruct Hc as [_ Hc]. apply unless_crash in Hc. destruct Hc as [_ Hc].
-  revert Hc. apply task_init_nocrash. fold (dict_get d force). rewrite safe_args_force. exact Hs.
+  revert Hc. apply task_init_nocrash.
 Qed.
 
 Lemma dict_to_task_ok nm d force t :
-  dict_to_task false nm d force = Ok t ->
+  dict_to_task L2 nm d force = Ok t ->
   (force = true \/ dhas d (KAttr AActions) = true) /\ existsb (fun kv => is_unknown (fst kv)) d = false /\
   init_post (dict_get d force) None false nm t.
 Proof.
@@ -697,12 +651,11 @@ Proof.
   - apply negb_true_iff in H2. exact H2.
 Qed.
 
-Lemma dict_to_task_safe nm d force t :
-  dict_to_task false nm d force = Ok t -> safe_args (dict_get d false) = true -> task_safe t = true.
+Lemma dict_to_task_safe nm d force t : dict_to_task L2 nm d force = Ok t -> task_safe t = true.
 Proof.
-  unfold dict_to_task. intros H Hs.
+  unfold dict_to_task. intros H.
   apply unless_ok in H. destruct H as [_ H]. apply unless_ok in H. destruct H as [_ H].
-  eapply task_init_safe; eauto. fold (dict_get d force). rewrite safe_args_force. exact Hs.
+  eapply task_init_safe; eauto.
 Qed.
 
 Lemma od_get_set o k t k' : od_get (od_set o k t) k' = if String.eqb k k' then Some t else od_get o k'.
@@ -755,49 +708,14 @@ Lemma task_safe_set_group t : task_safe (set_group t) = task_safe t.
 Proof. reflexivity. Qed.
 Lemma task_safe_set_subtask_of t b : task_safe (set_subtask_of t b) = task_safe t.
 Proof. reflexivity. Qed.
+Lemma task_safe_regroup g prev : task_safe g = true -> task_safe prev = true -> task_safe (regroup g prev) = true.
+Proof.
+  intros Hg Hp. destruct (task_safe_inv _ Hg) as (S1 & S2 & S3 & S4). destruct (task_safe_inv _ Hp) as (P1 & _).
+  unfold task_safe. simpl. rewrite forallb_app, S1, P1, S2, S3, S4. reflexivity.
+Qed.
 
-(* the branches of _generate_task_from_yield for a dict, named *)
-Definition fy_base (func : string) (d : tdict) : val :=
-  let b := match dget d KBasename with Some v => v | None => VNone end in if truthy b then b else VStr func.
-Definition fy_group (lg : bool) (func : string) (o : od) (d : tdict) : res od :=
-  do g <- dict_to_task lg (fy_base func d) d true ;; Ok (od_set o (t_name g) (set_group g)).
-Definition fy_sub (fmt : val -> string) (lg : bool) (func : string) (o : od) (d : tdict) (nm : val) : res od :=
-  let basename := fy_base func d in
-  let full := append (fstr fmt basename) (append colon (fstr fmt nm)) in
-  invalid_unless (negb (od_has o full)) (
-  do sub <- dict_to_task lg (VStr full) d false ;;
-  do g <- od_lookup o basename ;;
-  match g with
-  | Some grp =>
-      invalid_unless (t_has_subtask grp) (
-      match basename with
-      | VStr b => Ok (od_set (od_set o b (set_task_dep grp (t_task_dep grp ++ [VStr full]))) full (set_subtask_of sub b))
-      | _ => Invalid InvalidTask
-      end)
-  | None =>
-      do grp <- group_task lg basename ;;
-      Ok (od_set (od_set o (t_name grp) (set_task_dep grp (t_task_dep grp ++ [VStr full]))) full
-                 (set_subtask_of sub (t_name grp)))
-  end).
-Definition fy_plain (lg : bool) (o : od) (d : tdict) : res od :=
-  let basename := match dget d KBasename with Some v => v | None => VNone end in
-  invalid_unless (truthy basename) (
-  do g <- od_lookup o basename ;;
-  match g with
-  | Some _ => Invalid InvalidTask
-  | None => do t <- dict_to_task lg basename d false ;; Ok (od_set o (t_name t) t)
-  end).
-
-Lemma from_yield_dict fmt lg func o d :
-  from_yield fmt lg func o (IDict d) =
-  match dget d KName with
-  | Some nm => if is_none nm then fy_group lg func o d else fy_sub fmt lg func o d nm
-  | None => fy_plain lg o d
-  end.
-Proof. unfold from_yield. destruct (dget d KName) as [[]|]; reflexivity. Qed.
-
-Lemma od_lookup_nocrash o v c : hashable v = true -> od_lookup o v <> Crash c.
-Proof. destruct v; simpl; try discriminate. intros ->. discriminate. Qed.
+Lemma od_lookup_str o s : od_lookup o (VStr s) = Ok (od_get o s).
+Proof. reflexivity. Qed.
 
 Lemma od_lookup_some o v t : od_lookup o v = Ok (Some t) -> exists s, v = VStr s /\ od_get o s = Some t.
 Proof.
@@ -805,124 +723,142 @@ Proof.
   intros H. inversion H. eauto.
 Qed.
 
-Lemma fy_base_hashable func d :
-  match dget d KBasename with Some v => hashable v | None => true end = true -> hashable (fy_base func d) = true.
+Lemma od_lookup_none o s : od_lookup o (VStr s) = Ok None -> od_get o s = None.
+Proof. simpl. intros H. inversion H; auto. Qed.
+
+(* L2: the basename of a yielded dict is a str or not given *)
+Definition basename_ok (d : tdict) : bool := is_none (raw_basename d) || is_str (raw_basename d).
+
+Lemma fy_base_str func d : basename_ok d = true -> exists b, fy_base func d = VStr b.
 Proof.
-  unfold fy_base. destruct (dget d KBasename) as [v|]; simpl; auto.
-  destruct (truthy v); auto.
+  unfold basename_ok, fy_base. destruct (raw_basename d); simpl; try discriminate; intros _; eauto.
+  destruct (negb (String.eqb s EmptyString)); eauto.
 Qed.
 
-Lemma group_task_nocrash nm c : group_task false nm <> Crash c.
-Proof. unfold group_task. apply task_init_nocrash. reflexivity. Qed.
-Lemma group_task_safe nm t : group_task false nm = Ok t -> task_safe t = true.
-Proof. unfold group_task. intros H. eapply task_init_safe; eauto. Qed.
+Lemma raw_basename_str d : basename_ok d = true -> truthy (raw_basename d) = true -> exists b, raw_basename d = VStr b.
+Proof. unfold basename_ok. destruct (raw_basename d); simpl; try discriminate; eauto. Qed.
 
-Lemma task_obj_nocrash nm attrs c : safe_args (obj_get attrs) = true -> task_obj false nm attrs <> Crash c.
+Lemma from_yield_dict fmt func o d :
+  from_yield fmt L2 func o (IDict d) =
+  invalid_unless (basename_ok d) (
+  match dget d KName with
+  | Some nm => if is_none nm then fy_group L2 func o d else fy_sub fmt L2 func o d nm
+  | None => fy_plain L2 o d
+  end).
+Proof. reflexivity. Qed.
+
+Lemma group_task_nocrash nm c : group_task L2 nm <> Crash c.
+Proof. unfold group_task. apply task_init_nocrash. Qed.
+Lemma group_task_safe nm t : group_task L2 nm = Ok t -> task_safe t = true.
+Proof. unfold group_task. apply task_init_safe. Qed.
+Lemma task_obj_nocrash nm attrs c : task_obj L2 nm attrs <> Crash c.
 Proof. unfold task_obj. apply task_init_nocrash. Qed.
-Lemma task_obj_safe nm attrs t : task_obj false nm attrs = Ok t -> safe_args (obj_get attrs) = true -> task_safe t = true.
+Lemma task_obj_safe nm attrs t : task_obj L2 nm attrs = Ok t -> task_safe t = true.
 Proof. unfold task_obj. apply task_init_safe. Qed.
 
 Lemma from_yield_safe fmt func o it :
-  od_safe o = true -> item_safe it = true ->
-  (forall c, from_yield fmt false func o it <> Crash c) /\
-  (forall o', from_yield fmt false func o it = Ok o' -> od_safe o' = true).
+  od_safe o = true ->
+  (forall c, from_yield fmt L2 func o it <> Crash c) /\
+  (forall o', from_yield fmt L2 func o it = Ok o' -> od_safe o' = true).
 Proof.
-  intros Ho Hi. destruct it as [d|nm attrs|l| |]; try (split; [intros c; simpl; discriminate | intros o'; simpl; discriminate]).
+  intros Ho. destruct it as [d|nm attrs|l| |]; try (split; [intros c; simpl; discriminate | intros o'; simpl; discriminate]).
   - (* dict *)
-    simpl in Hi. apply andb_true_iff in Hi. destruct Hi as [Hd Hb].
-    rewrite from_yield_dict. destruct (dget d KName) as [nm|].
+    rewrite from_yield_dict. destruct (basename_ok d) eqn:Hb; [|split; [intros; discriminate | intros; discriminate]].
+    simpl invalid_unless. destruct (dget d KName) as [nm|].
     + destruct (is_none nm).
       * (* group definition *)
-        unfold fy_group. split.
-        -- intros c Hc. apply bind_crash in Hc. destruct Hc as [Hc|[g [_ Hc]]]; try discriminate.
-           revert Hc. apply dict_to_task_nocrash; auto.
-        -- intros o' H. apply bind_ok in H. destruct H as [g [Hg H]]. inversion H; subst.
-           apply od_set_safe; auto. rewrite task_safe_set_group. eapply dict_to_task_safe; eauto.
+        unfold fy_group. simpl repaired. cbv iota. split.
+        -- intros c Hc. apply bind_crash in Hc. destruct Hc as [Hc|[g [_ Hc]]].
+           { revert Hc. apply dict_to_task_nocrash. }
+           destruct (od_get o (t_name g)) as [prev|]; try discriminate.
+           apply unless_crash in Hc. destruct Hc as [_ Hc]. discriminate.
+        -- intros o' H. apply bind_ok in H. destruct H as [g [Hg H]].
+           pose proof (dict_to_task_safe _ _ _ _ Hg) as Sg.
+           destruct (od_get o (t_name g)) as [prev|] eqn:Ep.
+           ++ apply unless_ok in H. destruct H as [_ H]. inversion H; subst.
+              apply od_set_safe; auto. apply task_safe_regroup; auto. eapply od_get_safe; eauto.
+           ++ inversion H; subst. apply od_set_safe; auto.
       * (* sub-task *)
-        unfold fy_sub. split.
-        -- intros c Hc. apply unless_crash in Hc. destruct Hc as [_ Hc].
+        unfold fy_sub. simpl repaired. simpl negb. simpl orb.
+        destruct (fy_base_str func d Hb) as [b Eb]. rewrite Eb. rewrite od_lookup_str. split.
+        -- intros c Hc. apply unless_crash in Hc. destruct Hc as [_ Hc]. apply unless_crash in Hc. destruct Hc as [_ Hc].
            apply bind_crash in Hc. destruct Hc as [Hc|[sub [_ Hc]]].
-           { revert Hc. apply dict_to_task_nocrash; auto. }
-           apply bind_crash in Hc. destruct Hc as [Hc|[g [_ Hc]]].
-           { revert Hc. apply od_lookup_nocrash. apply fy_base_hashable; auto. }
-           destruct g as [grp|].
-           ++ apply unless_crash in Hc. destruct Hc as [_ Hc]. destruct (fy_base func d); discriminate.
+           { revert Hc. apply dict_to_task_nocrash. }
+           simpl in Hc. destruct (od_get o b) as [grp|].
+           ++ apply unless_crash in Hc. destruct Hc as [_ Hc]. discriminate.
            ++ apply bind_crash in Hc. destruct Hc as [Hc|[grp [_ Hc]]]; try discriminate.
               revert Hc. apply group_task_nocrash.
-        -- intros o' H. apply unless_ok in H. destruct H as [_ H].
+        -- intros o' H. apply unless_ok in H. destruct H as [_ H]. apply unless_ok in H. destruct H as [_ H].
            apply bind_ok in H. destruct H as [sub [Hsub H]].
-           apply bind_ok in H. destruct H as [g [Hg H]].
            assert (Ssub : task_safe sub = true) by (eapply dict_to_task_safe; eauto).
-           destruct g as [grp|].
+           simpl in H. destruct (od_get o b) as [grp|] eqn:Eg.
            ++ apply unless_ok in H. destruct H as [_ H].
-              apply od_lookup_some in Hg. destruct Hg as [b [Hb' Hg]]. rewrite Hb' in H.
               inversion H; subst. apply od_set_safe; [apply od_set_safe; auto|].
               ** apply task_safe_add_dep. eapply od_get_safe; eauto.
               ** rewrite task_safe_set_subtask_of. exact Ssub.
            ++ apply bind_ok in H. destruct H as [grp [Hgrp H]]. inversion H; subst.
               apply od_set_safe; [apply od_set_safe; auto|].
-              ** apply task_safe_add_dep. eapply group_task_safe; eauto.
+              ** apply (task_safe_add_dep (set_implicit grp)). change (task_safe grp = true). eapply group_task_safe; eauto.
               ** rewrite task_safe_set_subtask_of. exact Ssub.
     + (* plain task *)
       unfold fy_plain. split.
-      * intros c Hc. apply unless_crash in Hc. destruct Hc as [_ Hc].
-        apply bind_crash in Hc. destruct Hc as [Hc|[g [_ Hc]]].
-        { revert Hc. apply od_lookup_nocrash. destruct (dget d KBasename); auto. }
-        destruct g; try discriminate.
+      * intros c Hc. apply unless_crash in Hc. destruct Hc as [Ht Hc].
+        destruct (raw_basename_str d Hb Ht) as [b Eb]. rewrite Eb in Hc. rewrite od_lookup_str in Hc. simpl in Hc.
+        destruct (od_get o b); try discriminate.
         apply bind_crash in Hc. destruct Hc as [Hc|[t [_ Hc]]]; try discriminate.
-        revert Hc. apply dict_to_task_nocrash; auto.
+        revert Hc. apply dict_to_task_nocrash.
       * intros o' H. apply unless_ok in H. destruct H as [_ H].
         apply bind_ok in H. destruct H as [g [_ H]]. destruct g; try discriminate.
         apply bind_ok in H. destruct H as [t [Ht H]]. inversion H; subst.
         apply od_set_safe; auto. eapply dict_to_task_safe; eauto.
   - (* Task object *)
-    simpl in Hi. simpl. split.
-    + intros c Hc. apply bind_crash in Hc. destruct Hc as [Hc|[t [_ Hc]]]; try discriminate.
-      revert Hc. apply task_obj_nocrash; auto.
-    + intros o' H. apply bind_ok in H. destruct H as [t [Ht H]]. inversion H; subst.
+    simpl. split.
+    + intros c Hc. apply bind_crash in Hc. destruct Hc as [Hc|[t [_ Hc]]].
+      { revert Hc. apply task_obj_nocrash. }
+      destruct (od_has o (t_name t)); discriminate.
+    + intros o' H. apply bind_ok in H. destruct H as [t [Ht H]].
+      destruct (od_has o (t_name t)); try discriminate. inversion H; subst.
       apply od_set_safe; auto. eapply task_obj_safe; eauto.
 Qed.
 
-(* ------------------------------------------------------------------ generate_tasks, load_tasks, load: no crash on safe input *)
+(* ------------------------------------------------------------------ generate_tasks, load_tasks, load never crash *)
 Definition tasks_safe (ts : list task) : bool := forallb task_safe ts.
 
-Lemma foldM_from_yield_safe fmt func items : forallb item_safe items = true ->
+Lemma foldM_from_yield_safe fmt func items :
   forall o, od_safe o = true ->
-  (forall c, foldM (from_yield fmt false func) items o <> Crash c) /\
-  (forall o', foldM (from_yield fmt false func) items o = Ok o' -> od_safe o' = true).
+  (forall c, foldM (from_yield fmt L2 func) items o <> Crash c) /\
+  (forall o', foldM (from_yield fmt L2 func) items o = Ok o' -> od_safe o' = true).
 Proof.
-  intros Hi o Ho. rewrite forallb_forall in Hi. split.
+  intros o Ho. split.
   - intros c Hc. apply (foldM_crash _ (fun o => od_safe o = true)) in Hc; auto.
-    + destruct Hc as [s0 [x [Hx [Hs Hc]]]]. destruct (from_yield_safe fmt func s0 x Hs (Hi x Hx)) as [Hn _]. apply (Hn c Hc).
-    + intros s x s' Hx Hs Hf. destruct (from_yield_safe fmt func s x Hs (Hi x Hx)) as [_ Hk]. auto.
-  - intros o' H. revert H. apply (foldM_inv _ (fun o => od_safe o = true)); auto.
-    intros s x s' Hx Hs Hf. destruct (from_yield_safe fmt func s x Hs (Hi x Hx)) as [_ Hk]. auto.
+    + destruct Hc as [s0 [x [Hx [Hs Hc]]]]. destruct (from_yield_safe fmt func s0 x Hs) as [Hn _]. apply (Hn c Hc).
+    + intros s x s' Hx Hs Hf. destruct (from_yield_safe fmt func s x Hs) as [_ Hk]. auto.
+  - intros o'. apply (foldM_inv _ (fun o => od_safe o = true)); auto.
+    intros s x s' Hx Hs Hf. destruct (from_yield_safe fmt func s x Hs) as [_ Hk]. auto.
 Qed.
 
 Lemma from_return_safe func d :
-  item_safe (IDict d) = true ->
-  (forall c, from_return false func d <> Crash c) /\ (forall t, from_return false func d = Ok t -> task_safe t = true).
+  (forall c, from_return L2 func d <> Crash c) /\ (forall t, from_return L2 func d = Ok t -> task_safe t = true).
 Proof.
-  simpl. intros Hi. apply andb_true_iff in Hi. destruct Hi as [Hd _]. unfold from_return. split.
-  - intros c Hc. apply unless_crash in Hc. destruct Hc as [_ Hc]. revert Hc. apply dict_to_task_nocrash; auto.
+  unfold from_return. split.
+  - intros c Hc. apply unless_crash in Hc. destruct Hc as [_ Hc]. revert Hc. apply dict_to_task_nocrash.
   - intros t H. apply unless_ok in H. destruct H as [_ H]. eapply dict_to_task_safe; eauto.
 Qed.
 
 Lemma generate_tasks_safe fmt func r :
-  result_safe r = true ->
-  (forall c, generate_tasks fmt false func r <> Crash c) /\
-  (forall ts, generate_tasks fmt false func r = Ok ts -> tasks_safe ts = true).
+  (forall c, generate_tasks fmt L2 func r <> Crash c) /\
+  (forall ts, generate_tasks fmt L2 func r = Ok ts -> tasks_safe ts = true).
 Proof.
-  intros Hr. destruct r as [d|nm attrs|l| |]; simpl in *.
-  - destruct (from_return_safe func d Hr) as [Hn Hk]. split.
+  destruct r as [d|nm attrs|l| |]; simpl in *.
+  - destruct (from_return_safe func d) as [Hn Hk]. split.
     + intros c Hc. apply bind_crash in Hc. destruct Hc as [Hc|[t [_ Hc]]]; try discriminate. apply (Hn c Hc).
     + intros ts H. apply bind_ok in H. destruct H as [t [Ht H]]. inversion H; subst. simpl. rewrite (Hk t Ht). reflexivity.
   - split.
     + intros c Hc. apply bind_crash in Hc. destruct Hc as [Hc|[t [_ Hc]]]; try discriminate.
-      revert Hc. apply task_obj_nocrash; auto.
+      revert Hc. apply task_obj_nocrash.
     + intros ts H. apply bind_ok in H. destruct H as [t [Ht H]]. inversion H; subst. simpl.
-      rewrite (task_obj_safe _ _ _ Ht Hr). reflexivity.
-  - destruct (foldM_from_yield_safe fmt func _ Hr [] eq_refl) as [Hn Hk]. split.
+      rewrite (task_obj_safe _ _ _ Ht). reflexivity.
+  - destruct (foldM_from_yield_safe fmt func (flat_map flat l) [] eq_refl) as [Hn Hk]. split.
     + intros c Hc. apply bind_crash in Hc. destruct Hc as [Hc|[o [_ Hc]]]; [apply (Hn c Hc)|].
       destruct (is_nil o); try discriminate.
       apply bind_crash in Hc. destruct Hc as [Hc|[g [_ Hc]]]; try discriminate. revert Hc. apply group_task_nocrash.
@@ -935,10 +871,10 @@ Proof.
 Qed.
 
 Lemma delayed_task_safe n e :
-  (forall c, delayed_task false n e <> Crash c) /\ (forall t, delayed_task false n e = Ok t -> task_safe t = true).
+  (forall c, delayed_task L2 n e <> Crash c) /\ (forall t, delayed_task L2 n e = Ok t -> task_safe t = true).
 Proof.
   unfold delayed_task. split.
-  - intros c. apply task_init_nocrash. reflexivity.
+  - intros c. apply task_init_nocrash.
   - intros t H. eapply task_init_safe; eauto.
 Qed.
 
@@ -949,44 +885,37 @@ Proof.
   intros H. split.
   - intros c. apply mapM_nocrash. intros x Hx. apply (H x Hx).
   - intros ts Hts. apply mapM_ok in Hts. unfold tasks_safe. rewrite forallb_forall. intros t Ht.
-    induction Hts; simpl in *; [tauto|]. destruct Ht as [<-|Ht].
-    + apply (H x (or_introl eq_refl)). auto.
-    + apply IHHts; auto; intros z Hz; apply H; right; auto.
+    destruct (F2_in_r0 _ _ _ _ Hts Ht) as [x [Hx Hf]]. apply (H x Hx). exact Hf.
 Qed.
 
-Definition creator_safe (c : creator) : bool := result_safe (c_result c).
-
 Lemma load_creator_safe fmt allow c :
-  creator_safe c = true ->
-  (forall e, load_creator fmt false allow c <> Crash e) /\
-  (forall ts, load_creator fmt false allow c = Ok ts -> tasks_safe ts = true).
+  (forall e, load_creator fmt L2 allow c <> Crash e) /\
+  (forall ts, load_creator fmt L2 allow c = Ok ts -> tasks_safe ts = true).
 Proof.
-  intros Hc. unfold load_creator. destruct (c_delayed c) as [[ex cr]|].
+  unfold load_creator. destruct (c_delayed c) as [[ex cr]|].
   - destruct (negb (is_nil cr)).
     + apply mapM_safe. intros x _. apply delayed_task_safe.
     + destruct allow.
       * destruct (delayed_task_safe (c_name c) ex) as [Hn Hk]. split.
         -- intros e He. apply bind_crash in He. destruct He as [He|[t [_ He]]]; try discriminate. apply (Hn e He).
         -- intros ts H. apply bind_ok in H. destruct H as [t [Ht H]]. inversion H; subst. simpl. rewrite (Hk t Ht). reflexivity.
-      * apply generate_tasks_safe; auto.
-  - apply generate_tasks_safe; auto.
+      * apply generate_tasks_safe.
+  - apply generate_tasks_safe.
 Qed.
 
 Lemma load_tasks_safe fmt cmds allow cs :
-  forallb creator_safe cs = true ->
-  (forall e, load_tasks fmt false cmds allow cs <> Crash e) /\
-  (forall ts, load_tasks fmt false cmds allow cs = Ok ts -> tasks_safe ts = true).
+  (forall e, load_tasks fmt L2 cmds allow cs <> Crash e) /\
+  (forall ts, load_tasks fmt L2 cmds allow cs = Ok ts -> tasks_safe ts = true).
 Proof.
-  intros Hs. rewrite forallb_forall in Hs. unfold load_tasks.
+  unfold load_tasks.
   destruct (existsb _ cs); [split; discriminate|]. split.
   - intros e He. apply bind_crash in He. destruct He as [He|[tss [_ He]]]; try discriminate.
-    apply mapM_crash in He. destruct He as [c [Hc He]]. apply (proj1 (load_creator_safe fmt allow c (Hs c Hc)) e He).
+    apply mapM_crash in He. destruct He as [c [Hc He]]. apply (proj1 (load_creator_safe fmt allow c) e He).
   - intros ts H. apply bind_ok in H. destruct H as [tss [Htss H]]. inversion H; subst.
     apply mapM_ok in Htss. unfold tasks_safe. rewrite forallb_forall. intros t Ht.
     apply in_concat in Ht. destruct Ht as [l [Hl Ht]].
-    assert (Hx : exists c, In c cs /\ load_creator fmt false allow c = Ok l).
-    { destruct (F2_in_r0 _ _ _ _ Htss Hl) as [c [Hc1 Hc2]]. eauto. }
-    destruct Hx as [c [Hc Hl']]. pose proof (proj2 (load_creator_safe fmt allow c (Hs c Hc)) l Hl') as Hk.
+    destruct (F2_in_r0 _ _ _ _ Htss Hl) as [c [Hc Hl']].
+    pose proof (proj2 (load_creator_safe fmt allow c) l Hl') as Hk.
     unfold tasks_safe in Hk. rewrite forallb_forall in Hk. auto.
 Qed.
 
@@ -999,10 +928,7 @@ Qed.
 Lemma dep_exists_nocrash names d c : hashable d = true -> dep_exists names d <> Crash c.
 Proof. destruct d; simpl; try discriminate; try (destruct (mem_str s names); discriminate). intros ->. discriminate. Qed.
 
-Lemma is_str_hashable v : is_str v = true -> hashable v = true.
-Proof. destruct v; simpl; try discriminate; auto. Qed.
-
-Lemma control_nocrash fn ts c : tasks_safe ts = true -> control fn false ts <> Crash c.
+Lemma control_nocrash fn lv ts c : tasks_safe ts = true -> control fn lv ts <> Crash c.
 Proof.
   intros Hs Hc. unfold tasks_safe in Hs. rewrite forallb_forall in Hs. unfold control in Hc.
   destruct (first_dup [] (map t_name ts)); try discriminate.
@@ -1015,11 +941,8 @@ Proof.
   apply bind_crash in Hc. destruct Hc as [Hc|[[] [_ Hc]]].
   2:{ destruct (first_dup [] (flat_map t_targets ts1)); discriminate. }
   apply each_crash in Hc. destruct Hc as [t1 [Ht1 Hc]].
-  (* t1 comes from a safe task; its task_dep got only names added *)
   apply mapM_ok in H1.
-  assert (Hx : exists t, In t ts /\ expand_wild fn (map t_name ts) t = Ok t1).
-  { destruct (F2_in_r0 _ _ _ _ H1 Ht1) as [t [Ha Hb]]. eauto. }
-  destruct Hx as [t [Ht Hex]]. destruct (task_safe_inv _ (Hs t Ht)) as (S1 & S2 & S3 & S4).
+  destruct (F2_in_r0 _ _ _ _ H1 Ht1) as [t [Ht Hex]]. destruct (task_safe_inv _ (Hs t Ht)) as (S1 & S2 & S3 & S4).
   destruct (expand_wild_ok _ _ _ _ Hex) as [[_ [Hse [Hca _]]] Hdeps].
   unfold check_dep_names in Hc.
   apply bind_crash in Hc. destruct Hc as [Hc|[[] [_ Hc]]].
@@ -1028,19 +951,18 @@ Proof.
     rewrite forallb_forall in S1. apply is_str_hashable. auto. }
   apply bind_crash in Hc. destruct Hc as [Hc|[[] [_ Hc]]].
   { apply each_crash in Hc. destruct Hc as [d [Hd Hc]]. revert Hc. apply dep_exists_nocrash.
-    rewrite Hse in Hd. rewrite forallb_forall in S3. auto. }
+    rewrite Hse in Hd. rewrite forallb_forall in S3. apply is_str_hashable. auto. }
+  destruct (attr_strict lv); try discriminate.
   apply each_crash in Hc. destruct Hc as [d [Hd Hc]]. revert Hc. apply dep_exists_nocrash.
-  rewrite Hca in Hd. rewrite forallb_forall in S4. auto.
+  rewrite Hca in Hd. rewrite forallb_forall in S4. apply is_str_hashable. auto.
 Qed.
 
-Theorem load_total fmt fn cmds allow cs c :
-  forallb creator_safe cs = true -> load fmt fn false cmds allow cs <> Crash c.
+Theorem load_total fmt fn cmds allow cs c : load fmt fn L2 cmds allow cs <> Crash c.
 Proof.
-  intros Hs Hc. unfold load in Hc. destruct (load_tasks_safe fmt cmds allow cs Hs) as [Hn Hk].
+  intros Hc. unfold load in Hc. destruct (load_tasks_safe fmt cmds allow cs) as [Hn Hk].
   apply bind_crash in Hc. destruct Hc as [Hc|[ts [Hts Hc]]]; [apply (Hn c Hc)|].
   revert Hc. apply control_nocrash. auto.
 Qed.
-
 (* ------------------------------------------------------------------ group structure *)
 Definition sub_name (b k : string) : Prop := exists r, k = append b (append colon r).
 
@@ -1055,10 +977,11 @@ Qed.
 Definition od_inv (o : od) : Prop :=
   (forall k t, In (k, t) o -> t_name t = k) /\
   (forall k t b, In (k, t) o -> t_subtask_of t = Some b ->
-     exists g, od_get o b = Some g /\ t_has_subtask g = true /\ In (VStr k) (t_task_dep g) /\ sub_name b k).
+     exists g, od_get o b = Some g /\ t_has_subtask g = true /\ In (VStr k) (t_task_dep g) /\ sub_name b k) /\
+  (forall k t, In (k, t) o -> t_implicit t = true -> t_has_subtask t = true /\ t_subtask_of t = None).
 
 Lemma od_inv_nil : od_inv [].
-Proof. split; simpl; intros; tauto. Qed.
+Proof. split; [|split]; simpl; intros; tauto. Qed.
 
 Lemma eqb_neq_str a b : a <> b -> String.eqb a b = false.
 Proof. intros H. apply String.eqb_neq. exact H. Qed.
@@ -1067,24 +990,27 @@ Lemma inv_set_fresh o k t :
   od_inv o -> od_get o k = None -> t_name t = k ->
   (forall b, t_subtask_of t = Some b ->
      exists g, od_get o b = Some g /\ t_has_subtask g = true /\ In (VStr k) (t_task_dep g) /\ sub_name b k) ->
+  (t_implicit t = true -> t_has_subtask t = true /\ t_subtask_of t = None) ->
   od_inv (od_set o k t).
 Proof.
-  intros [K G] Hfresh Hn Hnew. split.
+  intros [K [G I]] Hfresh Hn Hnew Hi. split; [|split].
   - intros k0 t0 Hin. apply od_set_In in Hin. destruct Hin as [E|Hin]; [inversion E; subst; auto | auto].
   - intros k0 t0 b Hin Hsub.
     assert (Hold : (exists g, od_get o b = Some g /\ t_has_subtask g = true /\ In (VStr k0) (t_task_dep g) /\ sub_name b k0)).
     { apply od_set_In in Hin. destruct Hin as [E|Hin]; [inversion E; subst; auto | eauto]. }
     destruct Hold as [g [Hg Hrest]]. exists g. split; auto.
     rewrite od_get_set. rewrite eqb_neq_str; auto. intros ->. congruence.
+  - intros k0 t0 Hin Himp. apply od_set_In in Hin. destruct Hin as [E|Hin]; [inversion E; subst; auto | apply (I k0 t0); auto].
 Qed.
 
 Lemma inv_set_grow o k g t :
   od_inv o -> od_get o k = Some g ->
   t_name t = t_name g -> t_has_subtask t = t_has_subtask g -> t_subtask_of t = t_subtask_of g ->
   (forall d, In d (t_task_dep g) -> In d (t_task_dep t)) ->
+  (t_implicit t = true -> t_has_subtask t = true /\ t_subtask_of t = None) ->
   od_inv (od_set o k t).
 Proof.
-  intros [K G] Hg Hn Hh Hs Hd. pose proof (od_get_In _ _ _ Hg) as Hgin. split.
+  intros [K [G I]] Hg Hn Hh Hs Hd Hi. pose proof (od_get_In _ _ _ Hg) as Hgin. split; [|split].
   - intros k0 t0 Hin. apply od_set_In in Hin. destruct Hin as [E|Hin]; [inversion E; subst | auto].
     rewrite Hn. auto.
   - intros k0 t0 b Hin Hsub.
@@ -1096,347 +1022,7 @@ Proof.
     + apply String.eqb_eq in E. subst. rewrite Hg in Hg0. inversion Hg0; subst.
       exists t. repeat split; auto. congruence.
     + exists g0. auto.
-Qed.
-
-(* a group definition or a Task object is yielded under a name the generator has not produced yet *)
-Definition ow_ok (func : string) (o : od) (it : item) : Prop :=
-  match it with
-  | ITaskObj (VStr s) _ => od_get o s = None
-  | IDict d => match dget d KName with
-               | Some nm => if is_none nm then match fy_base func d with VStr s => od_get o s = None | _ => True end else True
-               | None => True
-               end
-  | _ => True
-  end.
-
-Lemma od_lookup_none o s : od_lookup o (VStr s) = Ok None -> od_get o s = None.
-Proof. simpl. intros H. inversion H; auto. Qed.
-
-Lemma from_yield_inv fmt func o it o' :
-  od_inv o -> ow_ok func o it -> from_yield fmt false func o it = Ok o' -> od_inv o'.
-Proof.
-  intros Hinv How H. destruct it as [d|nm attrs|l| |]; try discriminate.
-  - rewrite from_yield_dict in H. simpl in How. destruct (dget d KName) as [nm|].
-    + destruct (is_none nm).
-      * (* group definition *)
-        unfold fy_group in H. apply bind_ok in H. destruct H as [g [Hg H]]. inversion H; subst; clear H.
-        apply dict_to_task_ok in Hg. destruct Hg as [_ [_ Hp]]. destruct Hp.
-        rewrite ip_name0 in How. apply inv_set_fresh; auto.
-        simpl. rewrite ip_sub0. discriminate.
-      * (* sub-task *)
-        unfold fy_sub in H. apply unless_ok in H. destruct H as [Hnew H].
-        apply bind_ok in H. destruct H as [sub [Hsub H]].
-        apply bind_ok in H. destruct H as [g [Hg H]].
-        apply dict_to_task_ok in Hsub. destruct Hsub as [_ [_ Psub]].
-        apply negb_true_iff in Hnew. unfold od_has in Hnew.
-        destruct (od_get o (append (fstr fmt (fy_base func d)) (append colon (fstr fmt nm)))) eqn:Efull; try discriminate.
-        destruct g as [grp|].
-        -- apply unless_ok in H. destruct H as [Hhas H].
-           apply od_lookup_some in Hg. destruct Hg as [b [Hb Hg]]. rewrite Hb in *. simpl fstr in *.
-           inversion H; subst; clear H.
-           set (full := append b (append colon (fstr fmt nm))) in *.
-           assert (Hsn : sub_name b full) by (exists (fstr fmt nm); reflexivity).
-           assert (I1 : od_inv (od_set o b (set_task_dep grp (t_task_dep grp ++ [VStr full])))).
-           { eapply inv_set_grow; eauto. simpl. intros d0 Hd0. apply in_or_app; auto. }
-           apply inv_set_fresh; auto.
-           ++ rewrite od_get_set. rewrite eqb_neq_str; auto. intros E. apply (sub_name_neq _ _ Hsn). auto.
-           ++ simpl. destruct Psub. inversion ip_name0; auto.
-           ++ simpl. intros b0 E. inversion E; subst b0.
-              exists (set_task_dep grp (t_task_dep grp ++ [VStr full])). rewrite od_get_set, String.eqb_refl.
-              repeat split; auto. simpl. apply in_or_app; simpl; auto.
-        -- apply bind_ok in H. destruct H as [grp [Hgrp H]]. inversion H; subst; clear H.
-           unfold group_task in Hgrp. apply task_init_ok in Hgrp. destruct Hgrp.
-           rewrite ip_name0 in *. simpl fstr in *.
-           set (b := t_name grp) in *. set (full := append b (append colon (fstr fmt nm))) in *.
-           assert (Hsn : sub_name b full) by (exists (fstr fmt nm); reflexivity).
-           apply od_lookup_none in Hg.
-           assert (I1 : od_inv (od_set o b (set_task_dep grp (t_task_dep grp ++ [VStr full])))).
-           { apply inv_set_fresh; auto. simpl. rewrite ip_sub0. discriminate. }
-           apply inv_set_fresh; auto.
-           ++ rewrite od_get_set. rewrite eqb_neq_str; auto. intros E. apply (sub_name_neq _ _ Hsn). auto.
-           ++ simpl. destruct Psub. inversion ip_name1; auto.
-           ++ simpl. intros b0 E. inversion E; subst b0.
-              exists (set_task_dep grp (t_task_dep grp ++ [VStr full])). rewrite od_get_set, String.eqb_refl.
-              repeat split; auto. simpl. apply in_or_app; simpl; auto.
-    + (* plain *)
-      unfold fy_plain in H. apply unless_ok in H. destruct H as [_ H].
-      apply bind_ok in H. destruct H as [g [Hg H]]. destruct g; try discriminate.
-      apply bind_ok in H. destruct H as [t [Ht H]]. inversion H; subst; clear H.
-      apply dict_to_task_ok in Ht. destruct Ht as [_ [_ Pt]]. destruct Pt.
-      rewrite ip_name0 in Hg. apply od_lookup_none in Hg.
-      apply inv_set_fresh; auto. rewrite ip_sub0. discriminate.
-  - (* Task object *)
-    simpl in H. apply bind_ok in H. destruct H as [t [Ht H]]. inversion H; subst; clear H.
-    unfold task_obj in Ht. apply task_init_ok in Ht. destruct Ht. rewrite ip_name0 in How. simpl in How.
-    apply inv_set_fresh; auto. rewrite ip_sub0. discriminate.
-Qed.
-
-Fixpoint run_fresh (fmt : val -> string) (func : string) (o : od) (items : list item) : Prop :=
-  match items with
-  | [] => True
-  | it :: r => ow_ok func o it /\
-               match from_yield fmt false func o it with Ok o' => run_fresh fmt func o' r | _ => True end
-  end.
-
-Lemma foldM_from_yield_inv fmt func items : forall o o',
-  od_inv o -> run_fresh fmt func o items -> foldM (from_yield fmt false func) items o = Ok o' -> od_inv o'.
-Proof.
-  induction items as [|it r IH]; simpl; intros o o' Hinv Hf H.
-  - inversion H; subst; auto.
-  - apply bind_ok in H. destruct H as [o1 [H1 H2]]. destruct Hf as [How Hf]. rewrite H1 in Hf.
-    apply (IH o1 o'); auto. apply (from_yield_inv fmt func o it o1); auto.
-Qed.
-
-(* the same structure on a list of tasks *)
-Definition groups_ok (ts : list task) : Prop :=
-  forall t b, In t ts -> t_subtask_of t = Some b ->
-    exists g, In g ts /\ t_name g = b /\ t_has_subtask g = true /\ In (VStr (t_name t)) (t_task_dep g) /\
-              sub_name b (t_name t).
-
-Lemma od_inv_groups o : od_inv o -> groups_ok (map snd o).
-Proof.
-  intros [K G] t b Hin Hsub. apply in_map_iff in Hin. destruct Hin as [[k t'] [E Hin]]. simpl in E. subst t'.
-  destruct (G k t b Hin Hsub) as [g [Hg [Hh [Hd Hsn]]]]. pose proof (K _ _ Hin) as Hk.
-  apply od_get_In in Hg. exists g. rewrite Hk.
-  split; [apply in_map_iff; exists (b, g); auto|]. split; [apply (K _ _ Hg)|]. auto.
-Qed.
-
-Lemma groups_ok_single t : t_subtask_of t = None -> groups_ok [t].
-Proof. intros H t0 b [<-|[]] Hs. congruence. Qed.
-
-Definition creator_fresh (fmt : val -> string) (c : creator) : Prop :=
-  match c_result c with IGen l => run_fresh fmt (c_name c) [] (flat_map flat l) | _ => True end.
-
-Lemma generate_tasks_groups fmt func r ts :
-  match r with IGen l => run_fresh fmt func [] (flat_map flat l) | _ => True end ->
-  generate_tasks fmt false func r = Ok ts -> groups_ok ts.
-Proof.
-  intros Hf H. destruct r as [d|nm attrs|l| |]; simpl in H.
-  - apply bind_ok in H. destruct H as [t [Ht H]]. inversion H; subst. apply groups_ok_single.
-    unfold from_return in Ht. apply unless_ok in Ht. destruct Ht as [_ Ht].
-    apply dict_to_task_ok in Ht. destruct Ht as [_ [_ []]]. auto.
-  - apply bind_ok in H. destruct H as [t [Ht H]]. inversion H; subst. apply groups_ok_single.
-    unfold task_obj in Ht. apply task_init_ok in Ht. destruct Ht. auto.
-  - apply bind_ok in H. destruct H as [o [Ho H]]. destruct (is_nil o).
-    + apply bind_ok in H. destruct H as [g [Hg H]]. inversion H; subst. apply groups_ok_single.
-      unfold group_task in Hg. apply task_init_ok in Hg. destruct Hg. auto.
-    + inversion H; subst. apply od_inv_groups. eapply foldM_from_yield_inv; eauto. apply od_inv_nil.
-  - inversion H; subst. intros t b [].
-  - discriminate.
-Qed.
-
-Lemma load_creator_groups fmt allow c ts :
-  creator_fresh fmt c -> load_creator fmt false allow c = Ok ts -> groups_ok ts.
-Proof.
-  unfold load_creator, creator_fresh. intros Hf H.
-  assert (D : forall n e t, delayed_task false n e = Ok t -> t_subtask_of t = None).
-  { intros n e t Ht. unfold delayed_task in Ht. apply task_init_ok in Ht. destruct Ht. auto. }
-  destruct (c_delayed c) as [[ex cr]|].
-  - destruct (negb (is_nil cr)).
-    + apply mapM_ok in H. intros t b Hin Hs. exfalso.
-      assert (Hx : exists n, delayed_task false n ex = Ok t).
-      { destruct (F2_in_r0 _ _ _ _ H Hin) as [n [_ Hn]]. eauto. }
-      destruct Hx as [n Hn]. rewrite (D _ _ _ Hn) in Hs. discriminate.
-    + destruct allow.
-      * apply bind_ok in H. destruct H as [t [Ht H]]. inversion H; subst. apply groups_ok_single. eapply D; eauto.
-      * eapply generate_tasks_groups; eauto.
-  - eapply generate_tasks_groups; eauto.
-Qed.
-
-Lemma groups_ok_concat tss : Forall groups_ok tss -> groups_ok (concat tss).
-Proof.
-  intros F t b Hin Hs. apply in_concat in Hin. destruct Hin as [l [Hl Hin]].
-  rewrite Forall_forall in F. destruct (F l Hl t b Hin Hs) as [g [Hg Hrest]].
-  exists g. split; auto. apply in_concat. eauto.
-Qed.
-
-Lemma load_tasks_groups fmt cmds allow cs ts :
-  (forall c, In c cs -> creator_fresh fmt c) -> load_tasks fmt false cmds allow cs = Ok ts -> groups_ok ts.
-Proof.
-  unfold load_tasks. intros Hf H. destruct (existsb _ cs); try discriminate.
-  apply bind_ok in H. destruct H as [tss [Htss H]]. inversion H; subst. apply groups_ok_concat.
-  apply mapM_ok in Htss. clear H. induction Htss; constructor.
-  - eapply load_creator_groups; eauto. apply Hf. left; auto.
-  - apply IHHtss. intros c Hc. apply Hf. right; auto.
-Qed.
-
-Lemma F2_in_l {A B} (R : A -> B -> Prop) l l' x : Forall2 R l l' -> In x l -> exists y, In y l' /\ R x y.
-Proof. induction 1; simpl; [tauto|]. intros [<-|H1]; eauto. destruct (IHForall2 H1) as [z [Hz1 Hz2]]. eauto. Qed.
-Lemma F2_in_r {A B} (R : A -> B -> Prop) l l' y : Forall2 R l l' -> In y l' -> exists x, In x l /\ R x y.
-Proof. induction 1; simpl; [tauto|]. intros [<-|H1]; eauto. destruct (IHForall2 H1) as [z [Hz1 Hz2]]. eauto. Qed.
-
-Lemma groups_ok_same ts ts' : Forall2 same_but_deps ts ts' -> groups_ok ts -> groups_ok ts'.
-Proof.
-  intros F G t' b Hin Hs.
-  destruct (F2_in_r _ _ _ _ F Hin) as [t [Ht (N & _ & _ & _ & _ & S & _ & _)]].
-  rewrite S in Hs. destruct (G t b Ht Hs) as [g [Hg [Hn [Hh [Hd Hsn]]]]].
-  destruct (F2_in_l _ _ _ _ F Hg) as [g' [Hg' (N' & _ & _ & _ & H' & _ & _ & [extra E])]].
-  exists g'. rewrite N, N', H', E. repeat split; auto. apply in_or_app; auto.
-Qed.
-
-Theorem load_groups fmt fn cmds allow cs ts :
-  (forall c, In c cs -> creator_fresh fmt c) -> load fmt fn false cmds allow cs = Ok ts -> groups_ok ts.
-Proof.
-  unfold load. intros Hf H. apply bind_ok in H. destruct H as [ts0 [H0 H]].
-  apply control_ok in H. eapply groups_ok_same; [apply (cp_same _ _ _ H)|]. eapply load_tasks_groups; eauto.
-Qed.
-
-(* ------------------------------------------------------------------ what was accepted had the documented shape *)
-(* the table actually enforced: the documented one, except that any falsy `getargs` passes (getargs or {}) *)
-Definition accepts (a : attr) (v : val) : bool :=
-  match a with AGetargs => is_dict v || negb (truthy v) | _ => type_ok a v end.
-
-Lemma types_accepts get a v :
-  (forall a, type_ok a (tvalue get a) = true) -> get a = Some v -> accepts a v = true.
-Proof.
-  intros H Hg. specialize (H a). unfold tvalue, tgetargs, targ in H.
-  destruct a; rewrite Hg in H; simpl; auto.
-  destruct (truthy v) eqn:T; [|rewrite orb_true_r; reflexivity].
-  simpl in H. destruct v; simpl in *; try discriminate; auto.
-Qed.
-
-Definition no_unknown (d : tdict) : Prop := forall n, dget d (KUnknown n) = None.
-
-Lemma existsb_unknown d : existsb (fun kv => is_unknown (fst kv)) d = false -> no_unknown d.
-Proof.
-  induction d as [|[k v] r IH]; simpl; intros H n; auto.
-  apply orb_false_iff in H. destruct H as [H1 H2]. destruct k; simpl in *; try discriminate; apply IH; auto.
-Qed.
-
-Definition dict_accepted (force : bool) (d : tdict) : Prop :=
-  no_unknown d /\ (force = true \/ dhas d (KAttr AActions) = true) /\
-  forall a v, dget d (KAttr a) = Some v -> (force = true -> a <> AActions) -> accepts a v = true.
-
-Lemma dict_to_task_accepted nm d force t :
-  dict_to_task false nm d force = Ok t -> dict_accepted force d /\ nm = VStr (t_name t) /\ contains ch_eq (t_name t) = false.
-Proof.
-  intros H. apply dict_to_task_ok in H. destruct H as [Ha [Hu P]]. destruct P. split; [|auto].
-  split; [apply existsb_unknown; auto|]. split; auto.
-  intros a v Hg Hf. apply (types_accepts (dict_get d force)); auto.
-  unfold dict_get. destruct force; simpl; auto.
-  destruct (attr_eqb a AActions) eqn:E; auto. exfalso. apply Hf; auto. destruct a; simpl in E; try discriminate. reflexivity.
-Qed.
-
-Definition obj_accepted (nm : val) (attrs : list (attr * val)) : Prop :=
-  is_str nm = true /\ forall a v, aget attrs a = Some v -> accepts a v = true.
-
-Lemma task_obj_accepted nm attrs t : task_obj false nm attrs = Ok t -> obj_accepted nm attrs.
-Proof.
-  unfold task_obj. intros H. apply task_init_ok in H. destruct H. split.
-  - rewrite ip_name0. reflexivity.
-  - intros a v Hg. apply (types_accepts _ a v ip_types0). rewrite Hg. reflexivity.
-Qed.
-
-Definition yield_accepted (func : string) (it : item) : Prop :=
-  match it with
-  | IDict d =>
-      match dget d KName with
-      | Some nm => dict_accepted (is_none nm) d /\ is_str (fy_base func d) = true
-      | None => dict_accepted false d /\ exists s, dget d KBasename = Some (VStr s) /\ s <> EmptyString
-      end
-  | ITaskObj nm attrs => obj_accepted nm attrs
-  | _ => False
-  end.
-
-Lemma from_yield_accepted fmt func o it o' : from_yield fmt false func o it = Ok o' -> yield_accepted func it.
-Proof.
-  intros H. destruct it as [d|nm attrs|l| |]; try discriminate.
-  - rewrite from_yield_dict in H. simpl. destruct (dget d KName) as [nm|].
-    + destruct (is_none nm).
-      * unfold fy_group in H. apply bind_ok in H. destruct H as [g [Hg _]].
-        apply dict_to_task_accepted in Hg. destruct Hg as [Hd [Hn _]]. split; auto. rewrite Hn. reflexivity.
-      * unfold fy_sub in H. apply unless_ok in H. destruct H as [_ H].
-        apply bind_ok in H. destruct H as [sub [Hsub H]].
-        apply bind_ok in H. destruct H as [g [Hg H]].
-        apply dict_to_task_accepted in Hsub. destruct Hsub as [Hd _]. split; auto.
-        destruct g as [grp|].
-        -- apply od_lookup_some in Hg. destruct Hg as [b [-> _]]. reflexivity.
-        -- apply bind_ok in H. destruct H as [grp [Hgrp _]]. unfold group_task in Hgrp.
-           apply task_init_ok in Hgrp. destruct Hgrp. rewrite ip_name0. reflexivity.
-    + unfold fy_plain in H. apply unless_ok in H. destruct H as [Ht H].
-      apply bind_ok in H. destruct H as [g [_ H]]. destruct g; try discriminate.
-      apply bind_ok in H. destruct H as [t [Hdt _]].
-      apply dict_to_task_accepted in Hdt. destruct Hdt as [Hd [Hn _]]. split; auto.
-      destruct (dget d KBasename) as [v|]; [|discriminate]. subst v. exists (t_name t). split; auto.
-      intros E. rewrite E in Ht. discriminate.
-  - simpl in *. apply bind_ok in H. destruct H as [t [Ht _]]. eapply task_obj_accepted; eauto.
-Qed.
-
-Definition result_accepted (func : string) (r : item) : Prop :=
-  match r with
-  | IDict d => dhas d KName = false /\ dict_accepted false d /\ (forall v, dget d KBasename = Some v -> is_str v = true)
-  | ITaskObj nm attrs => obj_accepted nm attrs
-  | IGen l => Forall (yield_accepted func) (flat_map flat l)
-  | INone => True
-  | IOther => False
-  end.
-
-Lemma generate_tasks_accepted fmt func r ts : generate_tasks fmt false func r = Ok ts -> result_accepted func r.
-Proof.
-  intros H. destruct r as [d|nm attrs|l| |]; simpl in *; auto; try discriminate.
-  - apply bind_ok in H. destruct H as [t [Ht _]]. unfold from_return in Ht.
-    apply unless_ok in Ht. destruct Ht as [Hn Ht]. apply negb_true_iff in Hn.
-    apply dict_to_task_accepted in Ht. destruct Ht as [Hd [Hnm _]]. repeat split; auto; try apply Hd.
-    intros v Hv. rewrite Hv in Hnm. subst v. reflexivity.
-  - apply bind_ok in H. destruct H as [t [Ht _]]. eapply task_obj_accepted; eauto.
-  - apply bind_ok in H. destruct H as [o [Ho _]]. rewrite Forall_forall. intros x Hx.
-    destruct (foldM_steps _ (fun _ => True) _ (fun _ _ _ _ _ _ => I) _ _ I Ho x Hx) as [s0 [s1 [_ Hs]]].
-    eapply from_yield_accepted; eauto.
-Qed.
-
-(* the creator function is called at load time *)
-Definition runs (allow : bool) (c : creator) : bool :=
-  match c_delayed c with None => true | Some (_, cr) => is_nil cr && negb allow end.
-
-Lemma F2_in_l0 {A B} (R : A -> B -> Prop) l l' x : Forall2 R l l' -> In x l -> exists y, In y l' /\ R x y.
-Proof. induction 1; simpl; [tauto|]. intros [<-|H1]; eauto. destruct (IHForall2 H1) as [z [Hz1 Hz2]]. eauto. Qed.
-
-Lemma load_tasks_parts fmt cmds allow cs ts :
-  load_tasks fmt false cmds allow cs = Ok ts ->
-  (forall c, In c cs -> ~ In (c_name c) cmds) /\
-  exists tss, Forall2 (fun c l => load_creator fmt false allow c = Ok l) cs tss /\ ts = concat tss.
-Proof.
-  unfold load_tasks. destruct (existsb _ cs) eqn:E; try discriminate. intros H.
-  apply bind_ok in H. destruct H as [tss [Htss H]]. inversion H; subst. split.
-  - intros c Hc Hin. assert (X : existsb (fun c => mem_str (c_name c) cmds) cs = true); [|congruence].
-    apply existsb_exists. exists c. split; auto. apply mem_str_In; auto.
-  - exists tss. split; auto. apply mapM_ok; auto.
-Qed.
-
-Lemma load_creator_runs fmt allow c : runs allow c = true ->
-  load_creator fmt false allow c = generate_tasks fmt false (c_name c) (c_result c).
-Proof.
-  unfold runs, load_creator. destruct (c_delayed c) as [[ex cr]|]; auto.
-  intros H. apply andb_true_iff in H. destruct H as [H1 H2]. rewrite H1. simpl.
-  apply negb_true_iff in H2. rewrite H2. reflexivity.
-Qed.
-
-Theorem load_tasks_accepted fmt cmds allow cs ts :
-  load_tasks fmt false cmds allow cs = Ok ts ->
-  forall c, In c cs -> runs allow c = true -> result_accepted (c_name c) (c_result c).
-Proof.
-  intros H c Hc Hr. apply load_tasks_parts in H. destruct H as [_ [tss [F _]]].
-  destruct (F2_in_l0 _ _ _ _ F Hc) as [l [_ Hl]]. rewrite load_creator_runs in Hl; auto.
-  eapply generate_tasks_accepted; eauto.
-Qed.
-
-Theorem load_accepted fmt fn cmds allow cs ts :
-  load fmt fn false cmds allow cs = Ok ts ->
-  (forall c, In c cs -> ~ In (c_name c) cmds) /\
-  forall c, In c cs -> runs allow c = true -> result_accepted (c_name c) (c_result c).
-Proof.
-  unfold load. intros H. apply bind_ok in H. destruct H as [ts0 [H0 _]]. split.
-  - apply (load_tasks_parts _ _ _ _ _ H0).
-  - eapply load_tasks_accepted; eauto.
-Qed.
-
-Lemma cmd_clash_rejected fmt fn lg cmds allow cs c :
-  In c cs -> In (c_name c) cmds -> load fmt fn lg cmds allow cs = Invalid InvalidDodo.
-Proof.
-  intros Hc Hin. unfold load, load_tasks.
-  assert (X : existsb (fun c => mem_str (c_name c) cmds) cs = true).
-  { apply existsb_exists. exists c. split; auto. apply mem_str_In; auto. }
-  rewrite X. reflexivity.
+  - intros k0 t0 Hin Himp. apply od_set_In in Hin. destruct Hin as [E|Hin]; [inversion E; subst; auto | apply (I k0 t0); auto].
 Qed.
 
 (* ------------------------------------------------------------------ a group lists its sub-tasks in yield order *)
@@ -1489,7 +1075,7 @@ Qed.
 
 Lemma subs_nil_fresh b o : od_inv o -> od_get o b = None -> subs b o = [].
 Proof.
-  intros [_ G] Hn. apply subs_nil. intros k t Hin Hs. destruct (G k t b Hin Hs) as [g [Hg _]]. congruence.
+  intros [_ [G _]] Hn. apply subs_nil. intros k t Hin Hs. destruct (G k t b Hin Hs) as [g [Hg _]]. congruence.
 Qed.
 
 Lemma order_set_fresh_nosub o k t :
@@ -1522,61 +1108,148 @@ Proof.
   - rewrite app_nil_r. apply Hord; auto.
 Qed.
 
-Lemma from_yield_order fmt func o it o' :
-  od_inv o -> od_order o -> ow_ok func o it -> from_yield fmt false func o it = Ok o' -> od_order o'.
+Lemma order_set_regroup o k prev t x :
+  od_order o -> od_get o k = Some prev -> t_has_subtask prev = true ->
+  t_subtask_of t = t_subtask_of prev -> t_task_dep t = x ++ t_task_dep prev ->
+  od_order (od_set o k t).
 Proof.
-  intros Hinv Hord How H. destruct it as [d|nm attrs|l| |]; try discriminate.
-  - rewrite from_yield_dict in H. simpl in How. destruct (dget d KName) as [nm|].
-    + destruct (is_none nm).
-      * unfold fy_group in H. apply bind_ok in H. destruct H as [g [Hg H]]. inversion H; subst; clear H.
-        apply dict_to_task_ok in Hg. destruct Hg as [_ [_ Hp]]. destruct Hp.
-        rewrite ip_name0 in How. apply order_set_fresh_nosub; auto.
-      * unfold fy_sub in H. apply unless_ok in H. destruct H as [Hnew H].
-        apply bind_ok in H. destruct H as [sub [Hsub H]].
-        apply bind_ok in H. destruct H as [g [Hg H]].
-        apply dict_to_task_ok in Hsub. destruct Hsub as [_ [_ Psub]].
-        apply negb_true_iff in Hnew. unfold od_has in Hnew.
-        destruct (od_get o (append (fstr fmt (fy_base func d)) (append colon (fstr fmt nm)))) eqn:Efull; try discriminate.
-        destruct g as [grp|].
-        -- apply unless_ok in H. destruct H as [Hhas H].
-           apply od_lookup_some in Hg. destruct Hg as [b [Hb Hg]]. rewrite Hb in *. simpl fstr in *.
-           inversion H; subst; clear H.
-           apply order_add_sub; auto.
-           ++ intros E. apply (sub_name_neq b (append b (append colon (fstr fmt nm)))); auto. exists (fstr fmt nm); reflexivity.
-           ++ destruct Psub; auto.
-        -- apply bind_ok in H. destruct H as [grp [Hgrp H]]. inversion H; subst; clear H.
-           unfold group_task in Hgrp. apply task_init_ok in Hgrp. destruct Hgrp.
-           rewrite ip_name0 in *. simpl fstr in *. apply od_lookup_none in Hg.
-           set (b := t_name grp) in *. set (full := append b (append colon (fstr fmt nm))) in *.
-           assert (Hne : full <> b) by (apply sub_name_neq; exists (fstr fmt nm); reflexivity).
-           rewrite <- (od_set_idem o b grp).
-           apply order_add_sub; auto.
-           ++ apply order_set_fresh_nosub; auto.
-           ++ rewrite od_get_set, String.eqb_refl. reflexivity.
-           ++ rewrite od_get_set. rewrite eqb_neq_str; auto.
-           ++ destruct Psub; auto.
-    + unfold fy_plain in H. apply unless_ok in H. destruct H as [_ H].
-      apply bind_ok in H. destruct H as [g [Hg H]]. destruct g; try discriminate.
-      apply bind_ok in H. destruct H as [t [Ht H]]. inversion H; subst; clear H.
-      apply dict_to_task_ok in Ht. destruct Ht as [_ [_ Pt]]. destruct Pt.
-      rewrite ip_name0 in Hg. apply od_lookup_none in Hg.
-      apply order_set_fresh_nosub; auto.
-  - simpl in H. apply bind_ok in H. destruct H as [t [Ht H]]. inversion H; subst; clear H.
-    unfold task_obj in Ht. apply task_init_ok in Ht. destruct Ht. rewrite ip_name0 in How. simpl in How.
-    apply order_set_fresh_nosub; auto.
+  intros Hord Hp Hh Hs Hd b g Hg Hhg.
+  rewrite (subs_set_same b o k prev t); auto.
+  rewrite od_get_set in Hg. destruct (String.eqb k b) eqn:E.
+  - apply String.eqb_eq in E. subst b. inversion Hg; subst g.
+    destruct (Hord k prev Hp Hh) as [pre Hpre]. exists (x ++ pre). rewrite Hd, Hpre, app_assoc. reflexivity.
+  - apply Hord; auto.
 Qed.
 
-Lemma foldM_from_yield_order fmt func items : forall o o',
-  od_inv o -> od_order o -> run_fresh fmt func o items -> foldM (from_yield fmt false func) items o = Ok o' ->
-  od_inv o' /\ od_order o'.
+Lemma od_has_false o k : od_has o k = false -> od_get o k = None.
+Proof. unfold od_has. destruct (od_get o k); [discriminate | reflexivity]. Qed.
+
+(* one yielded item keeps both invariants (current code: no hypothesis on the items) *)
+Lemma no_implicit t : t_implicit t = false -> t_implicit t = true -> t_has_subtask t = true /\ t_subtask_of t = None.
+Proof. intros H1 H2. congruence. Qed.
+
+Lemma from_yield_inv fmt func o it o' :
+  od_inv o -> od_order o -> from_yield fmt L2 func o it = Ok o' -> od_inv o' /\ od_order o'.
 Proof.
-  induction items as [|it r IH]; simpl; intros o o' Hinv Hord Hf H.
-  - inversion H; subst; auto.
-  - apply bind_ok in H. destruct H as [o1 [H1 H2]]. destruct Hf as [How Hf]. rewrite H1 in Hf.
-    apply (IH o1 o'); auto.
-    + apply (from_yield_inv fmt func o it o1); auto.
-    + apply (from_yield_order fmt func o it o1); auto.
+  intros Hinv Hord H. destruct it as [d|nm attrs|l| |]; try discriminate.
+  - rewrite from_yield_dict in H. apply unless_ok in H. destruct H as [Hb H].
+    destruct (dget d KName) as [nm|].
+    + destruct (is_none nm).
+      * (* group definition *)
+        unfold fy_group in H. simpl repaired in H. cbv iota in H.
+        apply bind_ok in H. destruct H as [g [Hg H]].
+        apply dict_to_task_ok in Hg. destruct Hg as [_ [_ Hp]]. destruct Hp.
+        destruct (od_get o (t_name g)) as [prev|] eqn:Ep.
+        -- apply unless_ok in H. destruct H as [Himp H]. inversion H; subst; clear H.
+           pose proof (od_get_In _ _ _ Ep) as Pin.
+           destruct Hinv as [K [G I]]. pose proof (K _ _ Pin) as Kp. destruct (I _ _ Pin Himp) as [Hh Hso].
+           split.
+           ++ assert (P1 : od_inv o) by (split; [|split]; auto).
+              assert (P2 : t_name (regroup g prev) = t_name prev) by (simpl; congruence).
+              assert (P3 : t_has_subtask (regroup g prev) = t_has_subtask prev) by (simpl; congruence).
+              assert (P4 : t_subtask_of (regroup g prev) = t_subtask_of prev) by (simpl; congruence).
+              assert (P5 : forall d0, In d0 (t_task_dep prev) -> In d0 (t_task_dep (regroup g prev)))
+                by (simpl; intros d0 Hd0; apply in_or_app; auto).
+              assert (P6 : t_implicit (regroup g prev) = true -> t_has_subtask (regroup g prev) = true /\ t_subtask_of (regroup g prev) = None)
+                by (simpl; intros E; discriminate).
+              exact (inv_set_grow o (t_name g) prev (regroup g prev) P1 Ep P2 P3 P4 P5 P6).
+           ++ assert (P4 : t_subtask_of (regroup g prev) = t_subtask_of prev) by (simpl; congruence).
+              exact (order_set_regroup o (t_name g) prev (regroup g prev) (t_task_dep g) Hord Ep Hh P4 eq_refl).
+        -- inversion H; subst; clear H. split.
+           ++ apply inv_set_fresh; [auto | auto | reflexivity | simpl; rewrite ip_sub0; discriminate | intros E; simpl in E; congruence].
+           ++ apply order_set_fresh_nosub; auto.
+      * (* sub-task *)
+        unfold fy_sub in H. simpl repaired in H. simpl negb in H. simpl orb in H.
+        apply unless_ok in H. destruct H as [Hnm H].
+        destruct (fy_base_str func d Hb) as [b Eb]. rewrite Eb in H. cbn [fstr] in H. rewrite od_lookup_str in H.
+        destruct nm as [n| | | | | | | | | | | | |]; try discriminate. cbn [fstr] in H.
+        apply unless_ok in H. destruct H as [Hnew H].
+        apply bind_ok in H. destruct H as [sub [Hsub H]].
+        apply dict_to_task_ok in Hsub. destruct Hsub as [_ [_ Psub]].
+        apply negb_true_iff in Hnew. apply od_has_false in Hnew.
+        match type of Hnew with od_get o ?f = None => set (full := f) in * end.
+        assert (Hsn : sub_name b full) by (exists n; reflexivity).
+        assert (Hne : full <> b) by (apply sub_name_neq; auto).
+        assert (Nsub : t_name sub = full) by (destruct Psub as [Hn0]; inversion Hn0; auto).
+        assert (Hsub_h : t_has_subtask sub = false) by (destruct Psub; auto).
+        assert (Hsub_i : t_implicit sub = false) by (destruct Psub; auto).
+        cbn [bind] in H. destruct (od_get o b) as [grp|] eqn:Eg.
+        -- apply unless_ok in H. destruct H as [Hhas H]. inversion H; subst o'; clear H.
+           pose proof (od_get_In _ _ _ Eg) as Gin.
+           assert (Igrp : t_implicit grp = true -> t_has_subtask grp = true /\ t_subtask_of grp = None).
+           { destruct Hinv as [_ [_ I]]. apply (I _ _ Gin). }
+           split.
+           ++ assert (I1 : od_inv (od_set o b (set_task_dep grp (t_task_dep grp ++ [VStr full])))).
+              { apply (inv_set_grow o b grp); [auto | auto | reflexivity | reflexivity | reflexivity
+                                              | simpl; intros d0 Hd0; apply in_or_app; auto | exact Igrp]. }
+              apply inv_set_fresh; [ auto
+                | rewrite od_get_set; rewrite eqb_neq_str; auto
+                | simpl; auto
+                | simpl; intros b0 E; inversion E; subst b0;
+                  exists (set_task_dep grp (t_task_dep grp ++ [VStr full])); rewrite od_get_set, String.eqb_refl;
+                  repeat split; auto; simpl; apply in_or_app; simpl; auto
+                | intros E; simpl in E; congruence ].
+           ++ apply order_add_sub; auto.
+        -- apply bind_ok in H. destruct H as [grp0 [Hgrp H]]. inversion H; subst o'; clear H.
+           unfold group_task in Hgrp. apply task_init_ok in Hgrp.
+           assert (Nb : t_name grp0 = b) by (destruct Hgrp as [Hn0]; inversion Hn0; auto).
+           destruct Hgrp. cbn [t_name set_implicit t_task_dep]. rewrite Nb.
+           set (grp := set_implicit grp0).
+           assert (Hgn : t_name grp = b) by exact Nb.
+           assert (Hgs : t_subtask_of grp = None) by exact ip_sub0.
+           assert (Hgh : t_has_subtask grp = true) by exact ip_hs0.
+           change (t_task_dep grp0) with (t_task_dep grp).
+           assert (I0 : od_inv (od_set o b grp)).
+           { apply inv_set_fresh; [auto | auto | auto | rewrite Hgs; discriminate | intros _; auto]. }
+           assert (O0 : od_order (od_set o b grp)) by (apply order_set_fresh_nosub; auto).
+           split.
+           ++ assert (I1 : od_inv (od_set o b (set_task_dep grp (t_task_dep grp ++ [VStr full])))).
+              { apply inv_set_fresh; [auto | auto | auto | simpl; rewrite ip_sub0; discriminate | intros _; simpl; auto]. }
+              apply inv_set_fresh; [ auto
+                | rewrite od_get_set; rewrite eqb_neq_str; auto
+                | simpl; auto
+                | simpl; intros b0 E; inversion E; subst b0;
+                  exists (set_task_dep grp (t_task_dep grp ++ [VStr full])); rewrite od_get_set, String.eqb_refl;
+                  repeat split; auto; simpl; apply in_or_app; simpl; auto
+                | intros E; simpl in E; congruence ].
+           ++ rewrite <- (od_set_idem o b grp). apply order_add_sub; auto.
+              ** rewrite od_get_set, String.eqb_refl. reflexivity.
+              ** rewrite od_get_set. rewrite eqb_neq_str; auto.
+    + (* plain *)
+      unfold fy_plain in H. apply unless_ok in H. destruct H as [Ht H].
+      destruct (raw_basename_str d Hb Ht) as [b Eb]. rewrite Eb in H. rewrite od_lookup_str in H. cbn [bind] in H.
+      destruct (od_get o b) eqn:Eg; try discriminate.
+      apply bind_ok in H. destruct H as [t [Hdt H]]. inversion H; subst; clear H.
+      apply dict_to_task_ok in Hdt. destruct Hdt as [_ [_ Pt]].
+      assert (Nb : t_name t = b) by (destruct Pt as [Hn0]; inversion Hn0; auto).
+      destruct Pt. rewrite Nb. split.
+      * apply inv_set_fresh; [auto | auto | auto | rewrite ip_sub0; discriminate | intros E; simpl in E; congruence].
+      * apply order_set_fresh_nosub; auto.
+  - (* Task object *)
+    simpl in H. apply bind_ok in H. destruct H as [t [Ht H]].
+    destruct (od_has o (t_name t)) eqn:Eh; try discriminate. inversion H; subst; clear H.
+    apply od_has_false in Eh.
+    unfold task_obj in Ht. apply task_init_ok in Ht. destruct Ht. split.
+    + apply inv_set_fresh; [auto | auto | auto | rewrite ip_sub0; discriminate | intros E; simpl in E; congruence].
+    + apply order_set_fresh_nosub; auto.
 Qed.
+
+(* the same structure on a list of tasks *)
+Definition groups_ok (ts : list task) : Prop :=
+  forall t b, In t ts -> t_subtask_of t = Some b ->
+    exists g, In g ts /\ t_name g = b /\ t_has_subtask g = true /\ In (VStr (t_name t)) (t_task_dep g) /\
+              sub_name b (t_name t).
+
+Lemma od_inv_groups o : od_inv o -> groups_ok (map snd o).
+Proof.
+  intros [K [G _]] t b Hin Hsub. apply in_map_iff in Hin. destruct Hin as [[k t'] [E Hin]]. simpl in E. subst t'.
+  destruct (G k t b Hin Hsub) as [g [Hg [Hh [Hd Hsn]]]]. pose proof (K _ _ Hin) as Hk.
+  apply od_get_In in Hg. exists g. rewrite Hk.
+  split; [apply in_map_iff; exists (b, g); auto|]. split; [apply (K _ _ Hg)|]. auto.
+Qed.
+
+Lemma groups_ok_single t : t_subtask_of t = None -> groups_ok [t].
+Proof. intros H t0 b [<-|[]] Hs. congruence. Qed.
 
 (* on task lists *)
 Definition order_ok (ts : list task) : Prop :=
@@ -1612,28 +1285,10 @@ Proof.
     + auto.
 Qed.
 
-Lemma from_yield_nodup fmt func o it o' :
-  NoDup (map fst o) -> from_yield fmt false func o it = Ok o' -> NoDup (map fst o').
-Proof.
-  intros Hn H. destruct it as [d|nm attrs|l| |]; try discriminate.
-  - rewrite from_yield_dict in H. destruct (dget d KName) as [nm|].
-    + destruct (is_none nm).
-      * unfold fy_group in H. apply bind_ok in H. destruct H as [g [_ H]]. inversion H; subst. apply od_set_nodup; auto.
-      * unfold fy_sub in H. apply unless_ok in H. destruct H as [_ H].
-        apply bind_ok in H. destruct H as [sub [_ H]]. apply bind_ok in H. destruct H as [g [_ H]].
-        destruct g as [grp|].
-        -- apply unless_ok in H. destruct H as [_ H]. destruct (fy_base func d); try discriminate.
-           inversion H; subst. repeat apply od_set_nodup; auto.
-        -- apply bind_ok in H. destruct H as [grp [_ H]]. inversion H; subst. repeat apply od_set_nodup; auto.
-    + unfold fy_plain in H. apply unless_ok in H. destruct H as [_ H].
-      apply bind_ok in H. destruct H as [g [_ H]]. destruct g; try discriminate.
-      apply bind_ok in H. destruct H as [t [_ H]]. inversion H; subst. apply od_set_nodup; auto.
-  - simpl in H. apply bind_ok in H. destruct H as [t [_ H]]. inversion H; subst. apply od_set_nodup; auto.
-Qed.
 
 Lemma od_order_list o : NoDup (map fst o) -> od_inv o -> od_order o -> order_ok (map snd o).
 Proof.
-  intros Hn [K G] Hord g Hin Hh. apply in_map_iff in Hin. destruct Hin as [[k g'] [E Hin]]. simpl in E. subst g'.
+  intros Hn [K [G _]] Hord g Hin Hh. apply in_map_iff in Hin. destruct Hin as [[k g'] [E Hin]]. simpl in E. subst g'.
   rewrite subs_l_od; auto. rewrite (K _ _ Hin).
   destruct (Hord k g (od_In_get _ _ _ Hn Hin) Hh) as [pre Hpre]. exists pre, []. rewrite app_nil_r. exact Hpre.
 Qed.
@@ -1642,30 +1297,6 @@ Lemma order_ok_single t : t_subtask_of t = None -> order_ok [t].
 Proof.
   intros Hs g [<-|[]] Hh. exists (t_task_dep t), []. unfold subs_l. simpl. unfold sub_of. rewrite Hs. simpl.
   rewrite app_nil_r. reflexivity.
-Qed.
-
-Lemma generate_tasks_order fmt func r ts :
-  match r with IGen l => run_fresh fmt func [] (flat_map flat l) | _ => True end ->
-  generate_tasks fmt false func r = Ok ts -> order_ok ts.
-Proof.
-  intros Hf H. destruct r as [d|nm attrs|l| |]; simpl in H.
-  - apply bind_ok in H. destruct H as [t [Ht H]]. inversion H; subst. apply order_ok_single.
-    unfold from_return in Ht. apply unless_ok in Ht. destruct Ht as [_ Ht].
-    apply dict_to_task_ok in Ht. destruct Ht as [_ [_ []]]. auto.
-  - apply bind_ok in H. destruct H as [t [Ht H]]. inversion H; subst. apply order_ok_single.
-    unfold task_obj in Ht. apply task_init_ok in Ht. destruct Ht. auto.
-  - apply bind_ok in H. destruct H as [o [Ho H]]. destruct (is_nil o).
-    + apply bind_ok in H. destruct H as [g [Hg H]]. inversion H; subst. apply order_ok_single.
-      unfold group_task in Hg. apply task_init_ok in Hg. destruct Hg. auto.
-    + inversion H; subst.
-      assert (Hn : NoDup (map fst o)).
-      { revert Ho. apply (foldM_inv _ (fun o => NoDup (map fst o))); [|constructor].
-        intros s x s' _ Hs Hx. eapply from_yield_nodup; eauto. }
-      assert (O0 : od_order []) by (intros b g Hg; discriminate).
-      destruct (foldM_from_yield_order fmt func (flat_map flat l) [] o od_inv_nil O0 Hf Ho) as [Hi Hor].
-      apply od_order_list; auto.
-  - inversion H; subst. intros g [].
-  - discriminate.
 Qed.
 
 Lemma subs_l_app b x y : subs_l b (x ++ y) = subs_l b x ++ subs_l b y.
@@ -1733,104 +1364,262 @@ Proof.
   exists pre, (post ++ extra). rewrite (subs_l_same _ _ _ F), N, E, Hd, <- !app_assoc. reflexivity.
 Qed.
 
-Lemma load_creator_order fmt allow c ts :
-  creator_fresh fmt c -> load_creator fmt false allow c = Ok ts -> order_ok ts.
+Lemma groups_ok_concat tss : Forall groups_ok tss -> groups_ok (concat tss).
 Proof.
-  unfold load_creator, creator_fresh. intros Hf H.
-  assert (D : forall n e t, delayed_task false n e = Ok t -> t_subtask_of t = None /\ t_has_subtask t = false).
+  intros F t b Hin Hs. apply in_concat in Hin. destruct Hin as [l [Hl Hin]].
+  rewrite Forall_forall in F. destruct (F l Hl t b Hin Hs) as [g [Hg Hrest]].
+  exists g. split; auto. apply in_concat. eauto.
+Qed.
+
+Lemma F2_in_l {A B} (R : A -> B -> Prop) l l' x : Forall2 R l l' -> In x l -> exists y, In y l' /\ R x y.
+Proof. induction 1; simpl; [tauto|]. intros [<-|H1]; eauto. destruct (IHForall2 H1) as [z [Hz1 Hz2]]. eauto. Qed.
+Lemma F2_in_r {A B} (R : A -> B -> Prop) l l' y : Forall2 R l l' -> In y l' -> exists x, In x l /\ R x y.
+Proof. induction 1; simpl; [tauto|]. intros [<-|H1]; eauto. destruct (IHForall2 H1) as [z [Hz1 Hz2]]. eauto. Qed.
+
+Lemma groups_ok_same ts ts' : Forall2 same_but_deps ts ts' -> groups_ok ts -> groups_ok ts'.
+Proof.
+  intros F G t' b Hin Hs.
+  destruct (F2_in_r _ _ _ _ F Hin) as [t [Ht (N & _ & _ & _ & _ & S & _ & _)]].
+  rewrite S in Hs. destruct (G t b Ht Hs) as [g [Hg [Hn [Hh [Hd Hsn]]]]].
+  destruct (F2_in_l _ _ _ _ F Hg) as [g' [Hg' (N' & _ & _ & _ & H' & _ & _ & [extra E])]].
+  exists g'. rewrite N, N', H', E. repeat split; auto. apply in_or_app; auto.
+Qed.
+
+
+Lemma from_yield_nodup fmt func o it o' :
+  NoDup (map fst o) -> from_yield fmt L2 func o it = Ok o' -> NoDup (map fst o').
+Proof.
+  intros Hn H. destruct it as [d|nm attrs|l| |]; try discriminate.
+  - rewrite from_yield_dict in H. apply unless_ok in H. destruct H as [_ H]. destruct (dget d KName) as [nm|].
+    + destruct (is_none nm).
+      * unfold fy_group in H. simpl repaired in H. cbv iota in H. apply bind_ok in H. destruct H as [g [_ H]].
+        destruct (od_get o (t_name g)).
+        -- apply unless_ok in H. destruct H as [_ H]. inversion H; subst. apply od_set_nodup; auto.
+        -- inversion H; subst. apply od_set_nodup; auto.
+      * unfold fy_sub in H. apply unless_ok in H. destruct H as [_ H]. apply unless_ok in H. destruct H as [_ H].
+        apply bind_ok in H. destruct H as [sub [_ H]]. apply bind_ok in H. destruct H as [g [_ H]].
+        destruct g as [grp|].
+        -- apply unless_ok in H. destruct H as [_ H]. destruct (fy_base func d); try discriminate.
+           inversion H; subst. repeat apply od_set_nodup; auto.
+        -- apply bind_ok in H. destruct H as [grp [_ H]]. inversion H; subst. repeat apply od_set_nodup; auto.
+    + unfold fy_plain in H. apply unless_ok in H. destruct H as [_ H].
+      apply bind_ok in H. destruct H as [g [_ H]]. destruct g; try discriminate.
+      apply bind_ok in H. destruct H as [t [_ H]]. inversion H; subst. apply od_set_nodup; auto.
+  - simpl in H. apply bind_ok in H. destruct H as [t [_ H]].
+    destruct (od_has o (t_name t)); try discriminate. inversion H; subst. apply od_set_nodup; auto.
+Qed.
+
+Lemma foldM_from_yield_inv fmt func items : forall o o',
+  od_inv o -> od_order o -> foldM (from_yield fmt L2 func) items o = Ok o' -> od_inv o' /\ od_order o'.
+Proof.
+  induction items as [|it r IH]; simpl; intros o o' Hinv Hord H.
+  - inversion H; subst; auto.
+  - apply bind_ok in H. destruct H as [o1 [H1 H2]].
+    destruct (from_yield_inv fmt func o it o1 Hinv Hord H1) as [I1 O1]. apply (IH o1 o'); auto.
+Qed.
+
+Lemma generate_tasks_struct fmt func r ts :
+  generate_tasks fmt L2 func r = Ok ts -> groups_ok ts /\ order_ok ts.
+Proof.
+  intros H. destruct r as [d|nm attrs|l| |]; simpl in H.
+  - apply bind_ok in H. destruct H as [t [Ht H]]. inversion H; subst.
+    unfold from_return in Ht. apply unless_ok in Ht. destruct Ht as [_ Ht].
+    apply dict_to_task_ok in Ht. destruct Ht as [_ [_ []]].
+    split; [apply groups_ok_single | apply order_ok_single]; auto.
+  - apply bind_ok in H. destruct H as [t [Ht H]]. inversion H; subst.
+    unfold task_obj in Ht. apply task_init_ok in Ht. destruct Ht.
+    split; [apply groups_ok_single | apply order_ok_single]; auto.
+  - apply bind_ok in H. destruct H as [o [Ho H]]. destruct (is_nil o).
+    + apply bind_ok in H. destruct H as [g [Hg H]]. inversion H; subst.
+      unfold group_task in Hg. apply task_init_ok in Hg. destruct Hg.
+      split; [apply groups_ok_single | apply order_ok_single]; auto.
+    + inversion H; subst.
+      assert (Hn : NoDup (map fst o)).
+      { revert Ho. apply (foldM_inv _ (fun o => NoDup (map fst o))); [|constructor].
+        intros s x s' _ Hs Hx. eapply from_yield_nodup; eauto. }
+      assert (O0 : od_order []) by (intros b g Hg; discriminate).
+      destruct (foldM_from_yield_inv fmt func (flat_map flat l) [] o od_inv_nil O0 Ho) as [Hi Hor].
+      split; [apply od_inv_groups | apply od_order_list]; auto.
+  - inversion H; subst. split; [intros t b [] | intros g []].
+  - discriminate.
+Qed.
+
+Lemma load_creator_struct fmt allow c ts :
+  load_creator fmt L2 allow c = Ok ts -> groups_ok ts /\ order_ok ts.
+Proof.
+  unfold load_creator. intros H.
+  assert (D : forall n e t, delayed_task L2 n e = Ok t -> t_subtask_of t = None /\ t_has_subtask t = false).
   { intros n e t Ht. unfold delayed_task in Ht. apply task_init_ok in Ht. destruct Ht. auto. }
   destruct (c_delayed c) as [[ex cr]|].
   - destruct (negb (is_nil cr)).
-    + apply mapM_ok in H. intros t Hin Hs. exfalso.
-      destruct (F2_in_r0 _ _ _ _ H Hin) as [n [_ Hn]]. destruct (D _ _ _ Hn). congruence.
+    + apply mapM_ok in H. split.
+      * intros t b Hin Hs. exfalso. destruct (F2_in_r0 _ _ _ _ H Hin) as [n [_ Hn]]. destruct (D _ _ _ Hn). congruence.
+      * intros t Hin Hs. exfalso. destruct (F2_in_r0 _ _ _ _ H Hin) as [n [_ Hn]]. destruct (D _ _ _ Hn). congruence.
     + destruct allow.
-      * apply bind_ok in H. destruct H as [t [Ht H]]. inversion H; subst. apply order_ok_single. eapply D; eauto.
-      * eapply generate_tasks_order; eauto.
-  - eapply generate_tasks_order; eauto.
+      * apply bind_ok in H. destruct H as [t [Ht H]]. inversion H; subst. destruct (D _ _ _ Ht).
+        split; [apply groups_ok_single | apply order_ok_single]; auto.
+      * eapply generate_tasks_struct; eauto.
+  - eapply generate_tasks_struct; eauto.
 Qed.
 
-Theorem load_order fmt fn cmds allow cs ts :
-  (forall c, In c cs -> creator_fresh fmt c) -> load fmt fn false cmds allow cs = Ok ts -> order_ok ts.
+(* ------------------------------------------------------------------ what was accepted had the documented shape *)
+Lemma types_accepts get a v :
+  (forall a, type_ok a (tvalue get a) = true) -> get a = Some v -> type_ok a v = true.
 Proof.
-  unfold load. intros Hf H. apply bind_ok in H. destruct H as [ts0 [H0 H]].
-  apply control_ok in H. eapply order_ok_same; [apply (cp_same _ _ _ H)|].
+  intros H Hg. specialize (H a). unfold tvalue, tgetargs, targ in H.
+  destruct a; rewrite Hg in H; simpl; auto.
+  destruct v; simpl in *; auto.
+Qed.
+
+Definition no_unknown (d : tdict) : Prop := forall n, dget d (KUnknown n) = None.
+
+Lemma existsb_unknown d : existsb (fun kv => is_unknown (fst kv)) d = false -> no_unknown d.
+Proof.
+  induction d as [|[k v] r IH]; simpl; intros H n; auto.
+  apply orb_false_iff in H. destruct H as [H1 H2]. destruct k; simpl in *; try discriminate; apply IH; auto.
+Qed.
+
+(* [force] = the dict is a group definition, whose `actions` is overwritten *)
+Definition dict_accepted (force : bool) (d : tdict) : Prop :=
+  no_unknown d /\ (force = true \/ dhas d (KAttr AActions) = true) /\
+  forall a v, dget d (KAttr a) = Some v -> (force = true -> a <> AActions) -> type_ok a v = true.
+
+Lemma dict_to_task_accepted nm d force t :
+  dict_to_task L2 nm d force = Ok t -> dict_accepted force d /\ nm = VStr (t_name t) /\ contains ch_eq (t_name t) = false.
+Proof.
+  intros H. apply dict_to_task_ok in H. destruct H as [Ha [Hu P]]. destruct P. split; [|auto].
+  split; [apply existsb_unknown; auto|]. split; auto.
+  intros a v Hg Hf. apply (types_accepts (dict_get d force)); auto.
+  unfold dict_get. destruct force; simpl; auto.
+  destruct (attr_eqb a AActions) eqn:E; auto. exfalso. apply Hf; auto. destruct a; simpl in E; try discriminate. reflexivity.
+Qed.
+
+Definition obj_accepted (nm : val) (attrs : list (attr * val)) : Prop :=
+  is_str nm = true /\ forall a v, aget attrs a = Some v -> type_ok a v = true.
+
+Lemma task_obj_accepted nm attrs t : task_obj L2 nm attrs = Ok t -> obj_accepted nm attrs.
+Proof.
+  unfold task_obj. intros H. apply task_init_ok in H. destruct H. split.
+  - rewrite ip_name0. reflexivity.
+  - intros a v Hg. apply (types_accepts _ a v ip_types0). rewrite Hg. reflexivity.
+Qed.
+
+Definition yield_accepted (it : item) : Prop :=
+  match it with
+  | IDict d =>
+      basename_ok d = true /\
+      match dget d KName with
+      | Some nm => if is_none nm then dict_accepted true d else is_str nm = true /\ dict_accepted false d
+      | None => dict_accepted false d /\ exists s, dget d KBasename = Some (VStr s) /\ s <> EmptyString
+      end
+  | ITaskObj nm attrs => obj_accepted nm attrs
+  | _ => False
+  end.
+
+Lemma from_yield_accepted fmt func o it o' : from_yield fmt L2 func o it = Ok o' -> yield_accepted it.
+Proof.
+  intros H. destruct it as [d|nm attrs|l| |]; try discriminate.
+  - rewrite from_yield_dict in H. apply unless_ok in H. destruct H as [Hb H]. simpl. split; auto.
+    destruct (dget d KName) as [nm|].
+    + destruct (is_none nm).
+      * unfold fy_group in H. apply bind_ok in H. destruct H as [g [Hg _]].
+        apply dict_to_task_accepted in Hg. apply Hg.
+      * unfold fy_sub in H. simpl repaired in H. simpl negb in H. simpl orb in H.
+        apply unless_ok in H. destruct H as [Hnm H]. apply unless_ok in H. destruct H as [_ H].
+        apply bind_ok in H. destruct H as [sub [Hsub _]].
+        apply dict_to_task_accepted in Hsub. split; auto. apply Hsub.
+    + unfold fy_plain in H. apply unless_ok in H. destruct H as [Ht H].
+      apply bind_ok in H. destruct H as [g [_ H]]. destruct g; try discriminate.
+      apply bind_ok in H. destruct H as [t [Hdt _]].
+      apply dict_to_task_accepted in Hdt. destruct Hdt as [Hd [Hn _]]. split; auto.
+      unfold raw_basename in *. destruct (dget d KBasename) as [v|]; [|discriminate]. subst v. exists (t_name t). split; auto.
+      intros E. rewrite E in Ht. discriminate.
+  - simpl in *. apply bind_ok in H. destruct H as [t [Ht _]]. eapply task_obj_accepted; eauto.
+Qed.
+
+Definition result_accepted (r : item) : Prop :=
+  match r with
+  | IDict d => dhas d KName = false /\ dict_accepted false d /\ (forall v, dget d KBasename = Some v -> is_str v = true)
+  | ITaskObj nm attrs => obj_accepted nm attrs
+  | IGen l => Forall yield_accepted (flat_map flat l)
+  | INone => True
+  | IOther => False
+  end.
+
+Lemma generate_tasks_accepted fmt func r ts : generate_tasks fmt L2 func r = Ok ts -> result_accepted r.
+Proof.
+  intros H. destruct r as [d|nm attrs|l| |]; simpl in *; auto; try discriminate.
+  - apply bind_ok in H. destruct H as [t [Ht _]]. unfold from_return in Ht.
+    apply unless_ok in Ht. destruct Ht as [Hn Ht]. apply negb_true_iff in Hn.
+    apply dict_to_task_accepted in Ht. destruct Ht as [Hd [Hnm _]]. split; [|split]; auto.
+    intros v Hv. rewrite Hv in Hnm. subst v. reflexivity.
+  - apply bind_ok in H. destruct H as [t [Ht _]]. eapply task_obj_accepted; eauto.
+  - apply bind_ok in H. destruct H as [o [Ho _]]. rewrite Forall_forall. intros x Hx.
+    destruct (foldM_steps _ (fun _ => True) _ (fun _ _ _ _ _ _ => I) _ _ I Ho x Hx) as [s0 [s1 [_ Hs]]].
+    eapply from_yield_accepted; eauto.
+Qed.
+
+(* the creator function is called at load time *)
+Definition runs (allow : bool) (c : creator) : bool :=
+  match c_delayed c with None => true | Some (_, cr) => is_nil cr && negb allow end.
+
+Lemma F2_in_l0 {A B} (R : A -> B -> Prop) l l' x : Forall2 R l l' -> In x l -> exists y, In y l' /\ R x y.
+Proof. induction 1; simpl; [tauto|]. intros [<-|H1]; eauto. destruct (IHForall2 H1) as [z [Hz1 Hz2]]. eauto. Qed.
+
+Lemma load_tasks_parts fmt lv cmds allow cs ts :
+  load_tasks fmt lv cmds allow cs = Ok ts ->
+  (forall c, In c cs -> ~ In (c_name c) cmds) /\
+  exists tss, Forall2 (fun c l => load_creator fmt lv allow c = Ok l) cs tss /\ ts = concat tss.
+Proof.
+  unfold load_tasks. destruct (existsb _ cs) eqn:E; try discriminate. intros H.
+  apply bind_ok in H. destruct H as [tss [Htss H]]. inversion H; subst. split.
+  - intros c Hc Hin. assert (X : existsb (fun c => mem_str (c_name c) cmds) cs = true); [|congruence].
+    apply existsb_exists. exists c. split; auto. apply mem_str_In; auto.
+  - exists tss. split; auto. apply mapM_ok; auto.
+Qed.
+
+Lemma load_creator_runs fmt lv allow c : runs allow c = true ->
+  load_creator fmt lv allow c = generate_tasks fmt lv (c_name c) (c_result c).
+Proof.
+  unfold runs, load_creator. destruct (c_delayed c) as [[ex cr]|]; auto.
+  intros H. apply andb_true_iff in H. destruct H as [H1 H2]. rewrite H1. simpl.
+  apply negb_true_iff in H2. rewrite H2. reflexivity.
+Qed.
+
+Theorem load_accepted fmt fn cmds allow cs ts :
+  load fmt fn L2 cmds allow cs = Ok ts ->
+  (forall c, In c cs -> ~ In (c_name c) cmds) /\
+  forall c, In c cs -> runs allow c = true -> result_accepted (c_result c).
+Proof.
+  unfold load. intros H. apply bind_ok in H. destruct H as [ts0 [H0 _]].
+  apply load_tasks_parts in H0. destruct H0 as [Hcmd [tss [F _]]]. split; auto.
+  intros c Hc Hr. destruct (F2_in_l0 _ _ _ _ F Hc) as [l [_ Hl]]. rewrite load_creator_runs in Hl; auto.
+  eapply generate_tasks_accepted; eauto.
+Qed.
+
+Lemma cmd_clash_rejected fmt fn lv cmds allow cs c :
+  In c cs -> In (c_name c) cmds -> load fmt fn lv cmds allow cs = Invalid InvalidDodo.
+Proof.
+  intros Hc Hin. unfold load, load_tasks.
+  assert (X : existsb (fun c => mem_str (c_name c) cmds) cs = true).
+  { apply existsb_exists. exists c. split; auto. apply mem_str_In; auto. }
+  rewrite X. reflexivity.
+Qed.
+
+(* ------------------------------------------------------------------ group structure and yield order of a loaded set *)
+Theorem load_struct fmt fn cmds allow cs ts :
+  load fmt fn L2 cmds allow cs = Ok ts -> groups_ok ts /\ order_ok ts.
+Proof.
+  unfold load. intros H. apply bind_ok in H. destruct H as [ts0 [H0 H]].
+  apply control_ok in H.
   pose proof (cp_nodup _ _ _ H) as Hn. rewrite (cp_names _ _ _ H) in Hn.
   apply load_tasks_parts in H0. destruct H0 as [_ [tss [F ->]]].
-  apply order_ok_concat; auto.
-  - clear -F Hf. induction F; constructor.
-    + eapply load_creator_groups; eauto. apply Hf; left; auto.
-    + apply IHF. intros c Hc. apply Hf; right; auto.
-  - clear -F Hf. induction F; constructor.
-    + eapply load_creator_order; eauto. apply Hf; left; auto.
-    + apply IHF. intros c Hc. apply Hf; right; auto.
+  assert (FG : Forall groups_ok tss /\ Forall order_ok tss).
+  { clear -F. induction F; split; constructor; try apply IHF; eapply load_creator_struct; eauto. }
+  destruct FG as [FG FO]. split.
+  - eapply groups_ok_same; [apply (cp_same _ _ _ H)|]. apply groups_ok_concat; auto.
+  - eapply order_ok_same; [apply (cp_same _ _ _ H)|]. apply order_ok_concat; auto.
 Qed.
-
-(* ------------------------------------------------------------------ references given by the user are kept, so they are checked *)
-Lemma veq_str_r p s : veq p (VStr s) = true -> p = VStr s.
-Proof. destruct p; simpl; try discriminate. intros H. apply String.eqb_eq in H. congruence. Qed.
-
-Record refs_kept (get : attr -> option val) (t : task) : Prop := {
-  rk_task_dep : forall x, In x (elems (tvalue get ATaskDep)) -> star_in x = Ok false -> In x (t_task_dep t);
-  rk_setup : forall x, In x (elems (tvalue get ASetup)) -> In x (t_setup t);
-  rk_calc : forall x, In x (elems (tvalue get ACalcDep)) -> In x (t_calc t);
-  rk_getargs : forall kv desc, tvalue get AGetargs = VDict kv -> In desc (map snd kv) ->
-               exists p0, py_item0 desc = Ok p0 /\
-                          (existsb (veq p0) (elems (tvalue get ASetup)) = true \/ In p0 (t_setup t))
-}.
-
-Lemma init_refs_kept get ldep hs nm t : init_post get ldep hs nm t -> refs_kept get t.
-Proof.
-  intros []. destruct ip_deps0 as [tw [Htw [Hd _]]]. destruct ip_setup0 as [extra [Hex Hse]].
-  constructor.
-  - intros x Hx Hs. rewrite Hd. apply in_or_app. left. eapply expand_task_dep_nowild; eauto.
-  - intros x Hx. rewrite Hse. apply in_or_app; auto.
-  - intros x Hx. rewrite ip_calc0. exact Hx.
-  - intros kv desc Hg Hin. unfold getargs_step in Hex. simpl tvalue in Hg. rewrite Hg in Hex.
-    destruct kv as [|p kv']; [simpl in Hin; tauto|]. simpl truthy in Hex. cbv iota in Hex.
-    destruct (is_tuple (tvalue get AUptodate) && truthy (targ get AUptodate)); try discriminate.
-    destruct (init_getargs_ids _ _ _ Hex desc Hin) as [p0 [Hp [H|H]]]; exists p0; split; auto.
-    right. rewrite Hse. apply in_or_app; auto.
-Qed.
-
-Definition ref_exists (names : list string) (x : val) : Prop := exists s, x = VStr s /\ In s names.
-
-(* a creator that returns a dict: every task reference in it names a task of the accepted set *)
-Theorem load_refs_return fmt fn cmds allow cs ts c d :
-  load fmt fn false cmds allow cs = Ok ts -> In c cs -> runs allow c = true -> c_result c = IDict d ->
-  let names := map t_name ts in
-  (forall v x, dget d (KAttr ATaskDep) = Some v -> In x (elems v) -> star_in x = Ok false -> ref_exists names x) /\
-  (forall v x, dget d (KAttr ASetup) = Some v -> In x (elems v) -> ref_exists names x) /\
-  (forall v x, dget d (KAttr ACalcDep) = Some v -> In x (elems v) -> ref_exists names x) /\
-  (forall kv desc, dget d (KAttr AGetargs) = Some (VDict kv) -> In desc (map snd kv) ->
-                   exists p0, py_item0 desc = Ok p0 /\ ref_exists names p0).
-Proof.
-  intros H Hc Hr Hd names. unfold load in H. apply bind_ok in H. destruct H as [ts0 [H0 H]].
-  apply control_ok in H.
-  apply load_tasks_parts in H0. destruct H0 as [_ [tss [F ->]]].
-  destruct (F2_in_l0 _ _ _ _ F Hc) as [l [Hl Hgen]]. rewrite load_creator_runs in Hgen; auto.
-  rewrite Hd in Hgen. simpl in Hgen. apply bind_ok in Hgen. destruct Hgen as [t [Ht Hl']]. inversion Hl'; subst l; clear Hl'.
-  unfold from_return in Ht. apply unless_ok in Ht. destruct Ht as [_ Ht].
-  apply dict_to_task_ok in Ht. destruct Ht as [_ [_ P]]. apply init_refs_kept in P. destruct P.
-  assert (Hin : In t (concat tss)) by (apply in_concat; exists [t]; simpl; auto).
-  destruct (F2_in_l0 _ _ _ _ (cp_same _ _ _ H) Hin) as [t' [Ht' (_ & S & C & _ & _ & _ & _ & [extra E])]].
-  destruct (cp_refs _ _ _ H t' Ht') as [R1 [R2 R3]]. specialize (R3 eq_refl).
-  assert (V : forall a v, a <> AGetargs -> dget d (KAttr a) = Some v -> tvalue (dict_get d false) a = v).
-  { intros a v Ha Hg. unfold tvalue, targ, dict_get. simpl. rewrite Hg. destruct a; auto. congruence. }
-  repeat split.
-  - intros v x Hv Hx Hs. apply R1. rewrite E. apply in_or_app. left. apply rk_task_dep0; auto.
-    rewrite (V ATaskDep v); auto. discriminate.
-  - intros v x Hv Hx. apply R2. rewrite S. apply rk_setup0. rewrite (V ASetup v); auto. discriminate.
-  - intros v x Hv Hx. apply R3. rewrite C. apply rk_calc0. rewrite (V ACalcDep v); auto. discriminate.
-  - intros kv desc Hv Hin2. destruct kv as [|p kv']; [simpl in Hin2; tauto|].
-    assert (G : tvalue (dict_get d false) AGetargs = VDict (p :: kv')).
-    { unfold tvalue, tgetargs, targ, dict_get. simpl. rewrite Hv. reflexivity. }
-    destruct (rk_getargs0 _ desc G Hin2) as [p0 [Hp [Hs|Hs]]]; exists p0; split; auto.
-    + apply existsb_exists in Hs. destruct Hs as [e [He Hv2]].
-      assert (Re : ref_exists names e) by (apply R2; rewrite S; apply rk_setup0; exact He).
-      destruct Re as [s [-> Hs]]. apply veq_str_r in Hv2. subst. exists s; auto.
-    + apply R2. rewrite S. exact Hs.
-Qed.
-
 (* ------------------------------------------------------------------ names: definition / yield order, first occurrence *)
 Fixpoint addkey (l : list string) (k : string) : list string :=
   match l with [] => [k] | k0 :: r => if String.eqb k0 k then l else k0 :: addkey r k end.
@@ -1858,68 +1647,75 @@ Proof.
   - apply IH; auto.
 Qed.
 
-Definition plain_base (d : tdict) : val := match dget d KBasename with Some v => v | None => VNone end.
+(* the str a value is (names are str in an accepted item) *)
+Definition sv (v : val) : string := match v with VStr s => s | _ => EmptyString end.
 
 (* the names an item produces, in the order it produces them (the group before its sub-task) *)
-Definition item_keys (fmt : val -> string) (func : string) (it : item) : list string :=
+Definition item_keys (func : string) (it : item) : list string :=
   match it with
   | IDict d =>
       match dget d KName with
-      | Some nm => if is_none nm then [fstr fmt (fy_base func d)]
-                   else [fstr fmt (fy_base func d); append (fstr fmt (fy_base func d)) (append colon (fstr fmt nm))]
-      | None => [fstr fmt (plain_base d)]
+      | Some nm => if is_none nm then [sv (fy_base func d)]
+                   else [sv (fy_base func d); append (sv (fy_base func d)) (append colon (sv nm))]
+      | None => [sv (raw_basename d)]
       end
-  | ITaskObj nm _ => [fstr fmt nm]
+  | ITaskObj nm _ => [sv nm]
   | _ => []
   end.
 
 Definition od_keyed (o : od) : Prop := forall k t, In (k, t) o -> t_name t = k.
 
 Lemma from_yield_keys fmt func o it o' :
-  od_keyed o -> from_yield fmt false func o it = Ok o' ->
-  od_keyed o' /\ map fst o' = fold_left addkey (item_keys fmt func it) (map fst o).
+  od_keyed o -> from_yield fmt L2 func o it = Ok o' ->
+  od_keyed o' /\ map fst o' = fold_left addkey (item_keys func it) (map fst o).
 Proof.
   intros K H. destruct it as [d|nm attrs|l| |]; try discriminate.
-  - rewrite from_yield_dict in H. simpl. destruct (dget d KName) as [nm|].
+  - rewrite from_yield_dict in H. apply unless_ok in H. destruct H as [Hb H]. simpl.
+    destruct (dget d KName) as [nm|].
     + destruct (is_none nm).
-      * unfold fy_group in H. apply bind_ok in H. destruct H as [g [Hg H]]. inversion H; subst; clear H.
-        apply dict_to_task_ok in Hg. destruct Hg as [_ [_ []]]. rewrite ip_name0. simpl. rewrite od_set_keys. split; auto.
-        intros k t Hin. apply od_set_In in Hin. destruct Hin as [E|Hin]; auto. inversion E; subst. reflexivity.
-      * unfold fy_sub in H. apply unless_ok in H. destruct H as [_ H].
+      * unfold fy_group in H. simpl repaired in H. cbv iota in H. apply bind_ok in H. destruct H as [g [Hg H]].
+        apply dict_to_task_ok in Hg. destruct Hg as [_ [_ []]]. rewrite ip_name0. simpl.
+        destruct (od_get o (t_name g)).
+        -- apply unless_ok in H. destruct H as [_ H]. inversion H; subst; clear H. rewrite od_set_keys. split; auto.
+           intros k t0 Hin. apply od_set_In in Hin. destruct Hin as [E|Hin]; auto. inversion E; subst. reflexivity.
+        -- inversion H; subst; clear H. rewrite od_set_keys. split; auto.
+           intros k t0 Hin. apply od_set_In in Hin. destruct Hin as [E|Hin]; auto. inversion E; subst. reflexivity.
+      * unfold fy_sub in H. simpl repaired in H. simpl negb in H. simpl orb in H.
+        apply unless_ok in H. destruct H as [Hnm H].
+        destruct (fy_base_str func d Hb) as [b Eb]. rewrite Eb in *. simpl fstr in H at 1. rewrite od_lookup_str in H.
+        destruct nm as [n| | | | | | | | | | | | |]; try discriminate. simpl fstr in H. simpl sv.
+        apply unless_ok in H. destruct H as [_ H].
         apply bind_ok in H. destruct H as [sub [Hsub H]].
-        apply bind_ok in H. destruct H as [g [Hg H]].
         apply dict_to_task_ok in Hsub. destruct Hsub as [_ [_ Psub]].
-        assert (Nsub : t_name sub = append (fstr fmt (fy_base func d)) (append colon (fstr fmt nm))).
-        { destruct Psub. inversion ip_name0; auto. }
-        destruct g as [grp|].
-        -- apply unless_ok in H. destruct H as [_ H].
-           apply od_lookup_some in Hg. destruct Hg as [b [Hb Hg]]. rewrite Hb in *. simpl fstr in *.
-           inversion H; subst; clear H. simpl. rewrite !od_set_keys. split; auto.
+        assert (Nsub : t_name sub = append b (append colon n)) by (destruct Psub; inversion ip_name0; auto).
+        simpl in H. destruct (od_get o b) as [grp|] eqn:Eg.
+        -- apply unless_ok in H. destruct H as [_ H]. inversion H; subst; clear H. rewrite !od_set_keys. split; auto.
            intros k t Hin. apply od_set_In in Hin. destruct Hin as [E|Hin]; [inversion E; subst; simpl; auto|].
            apply od_set_In in Hin. destruct Hin as [E|Hin]; auto. inversion E; subst. simpl.
            apply K. apply od_get_In; auto.
         -- apply bind_ok in H. destruct H as [grp [Hgrp H]]. inversion H; subst; clear H.
            unfold group_task in Hgrp. apply task_init_ok in Hgrp. destruct Hgrp.
-           rewrite ip_name0 in *. simpl fstr in *. simpl. rewrite !od_set_keys. split; auto.
+           inversion ip_name0 as [Nb]. rewrite <- Nb. rewrite !od_set_keys. split; auto.
            intros k t Hin. apply od_set_In in Hin. destruct Hin as [E|Hin]; [inversion E; subst; simpl; auto|].
            apply od_set_In in Hin. destruct Hin as [E|Hin]; auto. inversion E; subst. reflexivity.
     + unfold fy_plain in H. apply unless_ok in H. destruct H as [_ H].
       apply bind_ok in H. destruct H as [g [_ H]]. destruct g; try discriminate.
       apply bind_ok in H. destruct H as [t [Ht H]]. inversion H; subst; clear H.
-      apply dict_to_task_ok in Ht. destruct Ht as [_ [_ []]]. fold (plain_base d) in *. rewrite ip_name0.
+      apply dict_to_task_ok in Ht. destruct Ht as [_ [_ []]]. rewrite ip_name0.
       simpl. rewrite od_set_keys. split; auto.
       intros k t0 Hin. apply od_set_In in Hin. destruct Hin as [E|Hin]; auto. inversion E; subst. reflexivity.
-  - simpl in H. apply bind_ok in H. destruct H as [t [Ht H]]. inversion H; subst; clear H.
+  - simpl in H. apply bind_ok in H. destruct H as [t [Ht H]].
+    destruct (od_has o (t_name t)); try discriminate. inversion H; subst; clear H.
     unfold task_obj in Ht. apply task_init_ok in Ht. destruct Ht. rewrite ip_name0. simpl. rewrite od_set_keys. split; auto.
     intros k t0 Hin. apply od_set_In in Hin. destruct Hin as [E|Hin]; auto. inversion E; subst. reflexivity.
 Qed.
 
-Definition gen_keys (fmt : val -> string) (func : string) (items : list item) (ks : list string) : list string :=
-  fold_left (fun ks it => fold_left addkey (item_keys fmt func it) ks) items ks.
+Definition gen_keys (func : string) (items : list item) (ks : list string) : list string :=
+  fold_left (fun ks it => fold_left addkey (item_keys func it) ks) items ks.
 
 Lemma foldM_from_yield_keys fmt func items : forall o o',
-  od_keyed o -> foldM (from_yield fmt false func) items o = Ok o' ->
-  od_keyed o' /\ map fst o' = gen_keys fmt func items (map fst o).
+  od_keyed o -> foldM (from_yield fmt L2 func) items o = Ok o' ->
+  od_keyed o' /\ map fst o' = gen_keys func items (map fst o).
 Proof.
   unfold gen_keys. induction items as [|it r IH]; simpl; intros o o' K H.
   - inversion H; subst; auto.
@@ -1927,11 +1723,11 @@ Proof.
     destruct (from_yield_keys fmt func o it o1 K H1) as [K1 E1]. rewrite <- E1. apply IH; auto.
 Qed.
 
-Definition result_keys (fmt : val -> string) (func : string) (r : item) : list string :=
+Definition result_keys (func : string) (r : item) : list string :=
   match r with
-  | IDict d => [fstr fmt (match dget d KBasename with Some v => v | None => VStr func end)]
-  | ITaskObj nm _ => [fstr fmt nm]
-  | IGen l => let ks := gen_keys fmt func (flat_map flat l) [] in if is_nil ks then [func] else ks
+  | IDict d => [sv (match dget d KBasename with Some v => v | None => VStr func end)]
+  | ITaskObj nm _ => [sv nm]
+  | IGen l => let ks := gen_keys func (flat_map flat l) [] in if is_nil ks then [func] else ks
   | _ => []
   end.
 
@@ -1942,7 +1738,7 @@ Proof.
 Qed.
 
 Lemma generate_tasks_names fmt func r ts :
-  generate_tasks fmt false func r = Ok ts -> map t_name ts = result_keys fmt func r.
+  generate_tasks fmt L2 func r = Ok ts -> map t_name ts = result_keys func r.
 Proof.
   intros H. destruct r as [d|nm attrs|l| |]; simpl in *; try discriminate.
   - apply bind_ok in H. destruct H as [t [Ht H]]. inversion H; subst. simpl.
@@ -1961,17 +1757,17 @@ Proof.
   - inversion H; reflexivity.
 Qed.
 
-Definition creator_keys (fmt : val -> string) (allow : bool) (c : creator) : list string :=
+Definition creator_keys (allow : bool) (c : creator) : list string :=
   match c_delayed c with
-  | None => result_keys fmt (c_name c) (c_result c)
-  | Some (_, cr) => if negb (is_nil cr) then cr else if allow then [c_name c] else result_keys fmt (c_name c) (c_result c)
+  | None => result_keys (c_name c) (c_result c)
+  | Some (_, cr) => if negb (is_nil cr) then cr else if allow then [c_name c] else result_keys (c_name c) (c_result c)
   end.
 
-Lemma delayed_task_name n e t : delayed_task false n e = Ok t -> t_name t = n.
+Lemma delayed_task_name n e t : delayed_task L2 n e = Ok t -> t_name t = n.
 Proof. unfold delayed_task. intros H. apply task_init_ok in H. destruct H. inversion ip_name0. reflexivity. Qed.
 
 Lemma load_creator_names fmt allow c ts :
-  load_creator fmt false allow c = Ok ts -> map t_name ts = creator_keys fmt allow c.
+  load_creator fmt L2 allow c = Ok ts -> map t_name ts = creator_keys allow c.
 Proof.
   unfold load_creator, creator_keys. destruct (c_delayed c) as [[ex cr]|].
   - destruct (negb (is_nil cr)).
@@ -1983,7 +1779,7 @@ Proof.
 Qed.
 
 Theorem load_names fmt fn cmds allow cs ts :
-  load fmt fn false cmds allow cs = Ok ts -> map t_name ts = flat_map (creator_keys fmt allow) cs.
+  load fmt fn L2 cmds allow cs = Ok ts -> map t_name ts = flat_map (creator_keys allow) cs.
 Proof.
   unfold load. intros H. apply bind_ok in H. destruct H as [ts0 [H0 H]].
   apply control_ok in H. rewrite (cp_names _ _ _ H).
@@ -1991,14 +1787,15 @@ Proof.
   clear H. induction F; simpl; auto. rewrite map_app, IHF. f_equal. eapply load_creator_names; eauto.
 Qed.
 
-(* a dict yielded under a name the generator already produced is rejected *)
-Definition own_key (fmt : val -> string) (func : string) (it : item) : list string :=
+(* a plain task, a sub-task or a Task object yielded under a name the generator already produced is rejected *)
+Definition own_key (func : string) (it : item) : list string :=
   match it with
   | IDict d =>
       match dget d KName with
-      | Some nm => if is_none nm then [] else [append (fstr fmt (fy_base func d)) (append colon (fstr fmt nm))]
-      | None => [fstr fmt (plain_base d)]
+      | Some nm => if is_none nm then [] else [append (sv (fy_base func d)) (append colon (sv nm))]
+      | None => [sv (raw_basename d)]
       end
+  | ITaskObj nm _ => [sv nm]
   | _ => []
   end.
 
@@ -2009,33 +1806,38 @@ Proof.
 Qed.
 
 Lemma from_yield_own fmt func o it o' :
-  od_keyed o -> from_yield fmt false func o it = Ok o' ->
+  od_keyed o -> from_yield fmt L2 func o it = Ok o' ->
   (forall x, In x (map fst o) -> In x (map fst o')) /\
-  forall k, In k (own_key fmt func it) -> ~ In k (map fst o) /\ In k (map fst o').
+  forall k, In k (own_key func it) -> ~ In k (map fst o) /\ In k (map fst o').
 Proof.
   intros K H. destruct (from_yield_keys fmt func o it o' K H) as [_ E]. split.
   - intros x Hx. rewrite E. apply fold_addkey_In. auto.
   - intros k Hk. split.
     2:{ rewrite E. apply fold_addkey_In. left. destruct it as [d| | | |]; simpl in *; try tauto.
         destruct (dget d KName) as [nm|]; [destruct (is_none nm)|]; simpl in *; tauto. }
-    destruct it as [d| | | |]; simpl in Hk; try tauto.
-    rewrite from_yield_dict in H. destruct (dget d KName) as [nm|].
-    + destruct (is_none nm); simpl in Hk; [tauto|]. destruct Hk as [<-|[]].
-      unfold fy_sub in H. apply unless_ok in H. destruct H as [Hnew _]. apply negb_true_iff in Hnew.
-      unfold od_has in Hnew. apply od_get_none_keys.
-      destruct (od_get o _); [discriminate | reflexivity].
-    + simpl in Hk. destruct Hk as [<-|[]].
-      unfold fy_plain in H. apply unless_ok in H. destruct H as [_ H]. fold (plain_base d) in H.
-      apply bind_ok in H. destruct H as [g [Hg H]]. destruct g; try discriminate.
-      apply bind_ok in H. destruct H as [t [Ht _]].
-      apply dict_to_task_ok in Ht. destruct Ht as [_ [_ []]]. rewrite ip_name0 in *. simpl.
-      apply od_get_none_keys. apply od_lookup_none; auto.
+    destruct it as [d|nm attrs| | |]; simpl in Hk; try tauto.
+    + rewrite from_yield_dict in H. apply unless_ok in H. destruct H as [Hb H]. destruct (dget d KName) as [nm|].
+      * destruct (is_none nm); simpl in Hk; [tauto|]. destruct Hk as [<-|[]].
+        unfold fy_sub in H. simpl repaired in H. simpl negb in H. simpl orb in H.
+        apply unless_ok in H. destruct H as [Hnm H].
+        destruct (fy_base_str func d Hb) as [b Eb]. rewrite Eb in *.
+        destruct nm as [n| | | | | | | | | | | | |]; try discriminate. simpl fstr in H. simpl sv.
+        apply unless_ok in H. destruct H as [Hnew _]. apply negb_true_iff in Hnew.
+        apply od_get_none_keys. apply od_has_false; auto.
+      * simpl in Hk. destruct Hk as [<-|[]].
+        unfold fy_plain in H. apply unless_ok in H. destruct H as [Ht H].
+        destruct (raw_basename_str d Hb Ht) as [b Eb]. rewrite Eb in *. rewrite od_lookup_str in H. simpl in H. simpl sv.
+        apply od_get_none_keys. destruct (od_get o b); [discriminate | reflexivity].
+    + destruct Hk as [<-|[]]. simpl in H. apply bind_ok in H. destruct H as [t [Ht H]].
+      destruct (od_has o (t_name t)) eqn:Eh; try discriminate.
+      unfold task_obj in Ht. apply task_init_ok in Ht. destruct Ht. rewrite ip_name0. simpl.
+      apply od_get_none_keys. apply od_has_false; auto.
 Qed.
 
 Lemma foldM_own_nodup fmt func items : forall o o',
-  od_keyed o -> foldM (from_yield fmt false func) items o = Ok o' ->
-  NoDup (flat_map (own_key fmt func) items) /\
-  forall k, In k (flat_map (own_key fmt func) items) -> ~ In k (map fst o).
+  od_keyed o -> foldM (from_yield fmt L2 func) items o = Ok o' ->
+  NoDup (flat_map (own_key func) items) /\
+  forall k, In k (flat_map (own_key func) items) -> ~ In k (map fst o).
 Proof.
   induction items as [|it r IH]; simpl; intros o o' K H.
   - split; [constructor | tauto].
@@ -2043,9 +1845,9 @@ Proof.
     destruct (from_yield_keys fmt func o it o1 K H1) as [K1 _].
     destruct (from_yield_own fmt func o it o1 K H1) as [Mono Own].
     destruct (IH o1 o' K1 H2) as [Nd Dis]. split.
-    + assert (L : (length (own_key fmt func it) <= 1)%nat).
+    + assert (L : (length (own_key func it) <= 1)%nat).
       { destruct it as [d| | | |]; simpl; auto. destruct (dget d KName) as [nm|]; [destruct (is_none nm)|]; simpl; auto. }
-      destruct (own_key fmt func it) as [|k [|k2 rest]] eqn:Ek; simpl in *; auto.
+      destruct (own_key func it) as [|k [|k2 rest]] eqn:Ek; simpl in *; auto.
       * constructor; auto. intros Hin. apply (Dis k Hin). apply (Own k); auto.
       * exfalso. lia.
     + intros k Hk. apply in_app_or in Hk. destruct Hk as [Hk|Hk].
@@ -2054,8 +1856,8 @@ Proof.
 Qed.
 
 Theorem load_own_keys_nodup fmt fn cmds allow cs ts c l :
-  load fmt fn false cmds allow cs = Ok ts -> In c cs -> runs allow c = true -> c_result c = IGen l ->
-  NoDup (flat_map (own_key fmt (c_name c)) (flat_map flat l)).
+  load fmt fn L2 cmds allow cs = Ok ts -> In c cs -> runs allow c = true -> c_result c = IGen l ->
+  NoDup (flat_map (own_key (c_name c)) (flat_map flat l)).
 Proof.
   intros H Hc Hr Hl. unfold load in H. apply bind_ok in H. destruct H as [ts0 [H0 _]].
   apply load_tasks_parts in H0. destruct H0 as [_ [tss [F _]]].
@@ -2065,9 +1867,220 @@ Proof.
   apply (foldM_own_nodup fmt (c_name c) _ _ _ K0 Ho).
 Qed.
 
+(* ------------------------------------------------------------------ references given by the user are kept, so they are checked *)
+Lemma veq_str_r p s : veq p (VStr s) = true -> p = VStr s.
+Proof. destruct p; simpl; try discriminate. intros H. apply String.eqb_eq in H. congruence. Qed.
+
+Record refs_kept (get : attr -> option val) (t : task) : Prop := {
+  rk_task_dep : forall x, In x (elems (tvalue get ATaskDep)) -> star_in x = Ok false -> In x (t_task_dep t);
+  rk_setup : forall x, In x (elems (tvalue get ASetup)) -> In x (t_setup t);
+  rk_calc : forall x, In x (elems (tvalue get ACalcDep)) -> In x (t_calc t);
+  rk_getargs : forall kv desc, tvalue get AGetargs = VDict kv -> In desc (map snd kv) ->
+               exists p0, py_item0 desc = Ok p0 /\
+                          (existsb (veq p0) (elems (tvalue get ASetup)) = true \/ In p0 (t_setup t))
+}.
+
+Lemma init_refs_kept get ldep hs nm t : init_post get ldep hs nm t -> refs_kept get t.
+Proof.
+  intros []. destruct ip_deps0 as [tw [Htw [Hd _]]]. destruct ip_setup0 as [extra [Hex Hse]].
+  constructor.
+  - intros x Hx Hs. rewrite Hd. apply in_or_app. left. eapply expand_task_dep_nowild; eauto.
+  - intros x Hx. rewrite Hse. apply in_or_app; auto.
+  - intros x Hx. rewrite ip_calc0. exact Hx.
+  - intros kv desc Hg Hin. unfold getargs_step in Hex. simpl tvalue in Hg. rewrite Hg in Hex.
+    destruct kv as [|p kv']; [simpl in Hin; tauto|]. simpl truthy in Hex. cbv iota in Hex.
+    destruct (init_getargs_ids _ _ _ Hex desc Hin) as [p0 [Hp [_ [H|H]]]]; exists p0; split; auto.
+    right. rewrite Hse. apply in_or_app; auto.
+Qed.
+
+Lemma refs_kept_same get t t' :
+  refs_kept get t -> (forall x, In x (t_task_dep t) -> In x (t_task_dep t')) -> t_setup t' = t_setup t -> t_calc t' = t_calc t ->
+  refs_kept get t'.
+Proof.
+  intros [] Hd Hs Hc. constructor; auto.
+  - intros x Hx. rewrite Hs. auto.
+  - intros x Hx. rewrite Hc. auto.
+  - intros kv desc Hg Hin. destruct (rk_getargs0 kv desc Hg Hin) as [p0 [Hp Hor]]. exists p0. rewrite Hs. auto.
+Qed.
+
+(* what a yielded item asks Task.__init__ for (group definitions aside) *)
+Definition item_get (it : item) : option (attr -> option val) :=
+  match it with
+  | IDict d => match dget d KName with Some nm => if is_none nm then None else Some (dict_get d false) | None => Some (dict_get d false) end
+  | ITaskObj _ attrs => Some (obj_get attrs)
+  | _ => None
+  end.
+Definition kept (get : attr -> option val) (o : od) : Prop :=
+  exists k t, od_get o k = Some t /\ t_has_subtask t = false /\ t_implicit t = false /\ refs_kept get t.
+
+(* an entry that is not a group task is never touched again *)
+Lemma from_yield_frozen fmt func o it o' k t :
+  od_get o k = Some t -> t_has_subtask t = false -> t_implicit t = false ->
+  from_yield fmt L2 func o it = Ok o' -> od_get o' k = Some t.
+Proof.
+  intros Hk Hh Hi H.
+  assert (Fresh : forall k' t', od_get o k' = None -> od_get (od_set o k' t') k = Some t).
+  { intros k' t' Hn. rewrite od_get_set. rewrite eqb_neq_str; auto. intros ->. congruence. }
+  assert (Grp : forall k' g t', od_get o k' = Some g -> t_has_subtask g = true \/ t_implicit g = true ->
+                od_get (od_set o k' t') k = Some t).
+  { intros k' g t' Hg Hgh. rewrite od_get_set. rewrite eqb_neq_str; auto. intros ->.
+    rewrite Hk in Hg. inversion Hg; subst. destruct Hgh; congruence. }
+  destruct it as [d|nm attrs|l| |]; try discriminate.
+  - rewrite from_yield_dict in H. apply unless_ok in H. destruct H as [Hb H].
+    destruct (dget d KName) as [nm|].
+    + destruct (is_none nm).
+      * unfold fy_group in H. simpl repaired in H. cbv iota in H. apply bind_ok in H. destruct H as [g [_ H]].
+        destruct (od_get o (t_name g)) as [prev|] eqn:Ep.
+        -- apply unless_ok in H. destruct H as [Hph H]. inversion H; subst. apply (Grp _ prev); auto.
+        -- inversion H; subst. apply Fresh; auto.
+      * unfold fy_sub in H. simpl repaired in H. simpl negb in H. simpl orb in H.
+        apply unless_ok in H. destruct H as [Hnm H].
+        destruct (fy_base_str func d Hb) as [b Eb]. rewrite Eb in H. cbn [fstr] in H. rewrite od_lookup_str in H.
+        apply unless_ok in H. destruct H as [Hnew H]. apply negb_true_iff in Hnew. apply od_has_false in Hnew.
+        apply bind_ok in H. destruct H as [sub [_ H]]. cbn [bind] in H.
+        match type of Hnew with od_get o ?f = None => set (full := f) in * end.
+        assert (Kf : k <> full) by (intros ->; congruence).
+        destruct (od_get o b) as [grp|] eqn:Eg.
+        -- apply unless_ok in H. destruct H as [Hgh H]. inversion H; subst o'.
+           rewrite od_get_set. rewrite eqb_neq_str; [|intros E; apply Kf; symmetry; exact E]. apply (Grp _ grp); auto.
+        -- apply bind_ok in H. destruct H as [grp [Hgrp H]]. inversion H; subst o'.
+           unfold group_task in Hgrp. apply task_init_ok in Hgrp.
+           assert (Nb : t_name grp = b) by (destruct Hgrp as [Hn]; inversion Hn; auto).
+           cbn [t_name set_implicit]. rewrite Nb. rewrite od_get_set. rewrite eqb_neq_str; [|intros E; apply Kf; symmetry; exact E].
+           apply Fresh; auto.
+    + unfold fy_plain in H. apply unless_ok in H. destruct H as [Ht H].
+      destruct (raw_basename_str d Hb Ht) as [b Eb]. rewrite Eb in H. rewrite od_lookup_str in H. simpl in H.
+      destruct (od_get o b) eqn:Eg; try discriminate.
+      apply bind_ok in H. destruct H as [t0 [Hdt H]]. inversion H; subst.
+      apply dict_to_task_ok in Hdt. destruct Hdt as [_ [_ []]]. inversion ip_name0 as [Nb]. rewrite <- Nb. apply Fresh; auto.
+  - simpl in H. apply bind_ok in H. destruct H as [t0 [Ht H]].
+    destruct (od_has o (t_name t0)) eqn:Eh; try discriminate. inversion H; subst. apply Fresh. apply od_has_false; auto.
+Qed.
+
+(* the task made from a yielded item is in the OrderedDict, with the references of the item *)
+Lemma from_yield_kept fmt func o it o' get :
+  from_yield fmt L2 func o it = Ok o' -> item_get it = Some get -> kept get o'.
+Proof.
+  intros H Hg. destruct it as [d|nm attrs|l| |]; try discriminate.
+  - rewrite from_yield_dict in H. apply unless_ok in H. destruct H as [Hb H]. simpl in Hg.
+    destruct (dget d KName) as [nm|].
+    + destruct (is_none nm); [discriminate|]. inversion Hg; subst get; clear Hg.
+      unfold fy_sub in H. simpl repaired in H. simpl negb in H. simpl orb in H.
+      apply unless_ok in H. destruct H as [Hnm H].
+      destruct (fy_base_str func d Hb) as [b Eb]. rewrite Eb in H. cbn [fstr] in H. rewrite od_lookup_str in H.
+      apply unless_ok in H. destruct H as [_ H].
+      apply bind_ok in H. destruct H as [sub [Hsub H]]. cbn [bind] in H.
+      apply dict_to_task_ok in Hsub. destruct Hsub as [_ [_ Psub]].
+      pose proof (init_refs_kept _ _ _ _ _ Psub) as Rk. destruct Psub.
+      set (full := append b (append colon (fstr fmt nm))) in *.
+      destruct (od_get o b) as [grp|].
+      * apply unless_ok in H. destruct H as [_ H]. inversion H; subst o'.
+        exists full, (set_subtask_of sub b). rewrite od_get_set, String.eqb_refl. split; auto. split; auto. split; auto.
+        eapply refs_kept_same; eauto.
+      * apply bind_ok in H. destruct H as [grp [_ H]]. inversion H; subst o'.
+        eexists full, _. rewrite od_get_set, String.eqb_refl. split; [reflexivity|]. split; auto. split; auto.
+        eapply refs_kept_same; eauto.
+    + inversion Hg; subst get; clear Hg.
+      unfold fy_plain in H. apply unless_ok in H. destruct H as [_ H].
+      apply bind_ok in H. destruct H as [g [_ H]]. destruct g; try discriminate.
+      apply bind_ok in H. destruct H as [t [Hdt H]]. inversion H; subst.
+      apply dict_to_task_ok in Hdt. destruct Hdt as [_ [_ P]]. pose proof (init_refs_kept _ _ _ _ _ P) as Rk. destruct P.
+      exists (t_name t), t. rewrite od_get_set, String.eqb_refl. auto.
+  - simpl in Hg. inversion Hg; subst get; clear Hg.
+    simpl in H. apply bind_ok in H. destruct H as [t [Ht H]].
+    destruct (od_has o (t_name t)); try discriminate. inversion H; subst.
+    unfold task_obj in Ht. apply task_init_ok in Ht. pose proof (init_refs_kept _ _ _ _ _ Ht) as Rk. destruct Ht.
+    exists (t_name t), t. rewrite od_get_set, String.eqb_refl. auto.
+Qed.
+
+Lemma foldM_kept fmt func items : forall o o',
+  foldM (from_yield fmt L2 func) items o = Ok o' ->
+  (forall get, kept get o -> kept get o') /\
+  forall it get, In it items -> item_get it = Some get -> kept get o'.
+Proof.
+  induction items as [|it r IH]; simpl; intros o o' H.
+  - inversion H; subst. split; auto. tauto.
+  - apply bind_ok in H. destruct H as [o1 [H1 H2]]. destruct (IH o1 o' H2) as [P Q].
+    assert (Step : forall get, kept get o -> kept get o1).
+    { intros get [k [t [Hk [Hh [Hi Hr]]]]]. exists k, t. split; auto. eapply from_yield_frozen; eauto. }
+    split.
+    + intros get Hk. apply P. apply Step. exact Hk.
+    + intros it0 get [<-|Hin] Hg.
+      * apply P. eapply from_yield_kept; eauto.
+      * eapply Q; eauto.
+Qed.
+
+Definition ref_exists (names : list string) (x : val) : Prop := exists s, x = VStr s /\ In s names.
+
+(* every task reference of an item names a task of the set *)
+Definition refs_checked (names : list string) (get : attr -> option val) : Prop :=
+  (forall x, In x (elems (tvalue get ATaskDep)) -> star_in x = Ok false -> ref_exists names x) /\
+  (forall x, In x (elems (tvalue get ASetup)) -> ref_exists names x) /\
+  (forall x, In x (elems (tvalue get ACalcDep)) -> ref_exists names x) /\
+  (forall kv desc, tvalue get AGetargs = VDict kv -> In desc (map snd kv) ->
+                   exists p0, py_item0 desc = Ok p0 /\ ref_exists names p0).
+
+Lemma refs_kept_checked names get t t' :
+  refs_kept get t -> same_but_deps t t' ->
+  refs_in names (t_task_dep t') -> refs_in names (t_setup t') -> refs_in names (t_calc t') ->
+  refs_checked names get.
+Proof.
+  intros [] (_ & S & C & _ & _ & _ & _ & [extra E]) R1 R2 R3. split; [|split; [|split]].
+  - intros x Hx Hs. apply R1. rewrite E. apply in_or_app. left. auto.
+  - intros x Hx. apply R2. rewrite S. auto.
+  - intros x Hx. apply R3. rewrite C. auto.
+  - intros kv desc Hg Hin. destruct (rk_getargs0 kv desc Hg Hin) as [p0 [Hp [Hs|Hs]]]; exists p0; split; auto.
+    + apply existsb_exists in Hs. destruct Hs as [e [He Hv]].
+      assert (Re : ref_exists names e) by (apply R2; rewrite S; auto).
+      destruct Re as [s [-> Hs]]. apply veq_str_r in Hv. subst. exists s; auto.
+    + apply R2. rewrite S. exact Hs.
+Qed.
+
+Definition yields (c : creator) (it : item) : Prop :=
+  match c_result c with IGen l => In it (flat_map flat l) | _ => False end.
+(* the creator returns this item, or yields it at any nesting depth *)
+Definition produces (c : creator) (it : item) : Prop := c_result c = it \/ yields c it.
+
+Lemma generate_tasks_kept fmt func r ts it get :
+  generate_tasks fmt L2 func r = Ok ts ->
+  (r = it \/ match r with IGen l => In it (flat_map flat l) | _ => False end) ->
+  item_get it = Some get -> exists t, In t ts /\ refs_kept get t.
+Proof.
+  intros H Hp Hg. destruct r as [d|nm attrs|l| |]; simpl in H; try discriminate.
+  - destruct Hp as [<-|[]]. apply bind_ok in H. destruct H as [t [Ht H]]. inversion H; subst.
+    unfold from_return in Ht. apply unless_ok in Ht. destruct Ht as [Hn Ht]. apply negb_true_iff in Hn.
+    simpl in Hg. unfold dhas in Hn. destruct (dget d KName); try discriminate. inversion Hg; subst.
+    apply dict_to_task_ok in Ht. destruct Ht as [_ [_ P]]. exists t. split; [left; auto|]. eapply init_refs_kept; eauto.
+  - destruct Hp as [<-|[]]. apply bind_ok in H. destruct H as [t [Ht H]]. inversion H; subst.
+    simpl in Hg. inversion Hg; subst. unfold task_obj in Ht. apply task_init_ok in Ht.
+    exists t. split; [left; auto|]. eapply init_refs_kept; eauto.
+  - destruct Hp as [<-|Hin]; [discriminate|].
+    apply bind_ok in H. destruct H as [o [Ho H]].
+    destruct (foldM_kept fmt func _ _ _ Ho) as [_ Q]. destruct (Q it get Hin Hg) as [k [t [Hk [_ [_ Hr]]]]].
+    destruct (is_nil o) eqn:En.
+    + destruct o; [discriminate | discriminate].
+    + inversion H; subst. exists t. split; auto. apply in_map_iff. exists (k, t). split; auto. apply od_get_In; auto.
+  - destruct Hp as [<-|[]]. discriminate.
+Qed.
+
+Theorem load_refs_checked fmt fn cmds allow cs ts c it get :
+  load fmt fn L2 cmds allow cs = Ok ts -> In c cs -> runs allow c = true -> produces c it ->
+  item_get it = Some get -> refs_checked (map t_name ts) get.
+Proof.
+  intros H Hc Hr Hp Hg. unfold load in H. apply bind_ok in H. destruct H as [ts0 [H0 H]].
+  apply control_ok in H.
+  apply load_tasks_parts in H0. destruct H0 as [_ [tss [F ->]]].
+  destruct (F2_in_l0 _ _ _ _ F Hc) as [l [Hl Hgen]]. rewrite load_creator_runs in Hgen; auto.
+  destruct (generate_tasks_kept fmt (c_name c) (c_result c) l it get Hgen Hp Hg) as [t [Ht Hk]].
+  assert (Hin : In t (concat tss)) by (apply in_concat; eauto).
+  destruct (F2_in_l0 _ _ _ _ (cp_same _ _ _ H) Hin) as [t' [Ht' Hsame]].
+  destruct (cp_refs _ _ _ H t' Ht') as [R1 [R2 R3]].
+  eapply refs_kept_checked; eauto.
+Qed.
+
 (* ------------------------------------------------------------------ summary statements used by Properties/C18.v *)
 Theorem load_post fmt fn cmds allow cs ts :
-  load fmt fn false cmds allow cs = Ok ts ->
+  load fmt fn L2 cmds allow cs = Ok ts ->
   NoDup (map t_name ts) /\ NoDup (flat_map t_targets ts) /\
   forall t, In t ts -> refs_in (map t_name ts) (t_task_dep t) /\ refs_in (map t_name ts) (t_setup t) /\
                        refs_in (map t_name ts) (t_calc t).
@@ -2077,30 +2090,23 @@ Proof.
   intros t Ht. destruct (cp_refs _ _ _ H t Ht) as [R1 [R2 R3]]. auto.
 Qed.
 
-Definition yields (c : creator) (it : item) : Prop :=
-  match c_result c with IGen l => In it (flat_map flat l) | _ => False end.
 (* the creator returns this dict, or yields it at any nesting depth *)
-Definition gives (c : creator) (d : tdict) : Prop := c_result c = IDict d \/ yields c (IDict d).
+Definition gives (c : creator) (d : tdict) : Prop := produces c (IDict d).
 Definition group_definition (d : tdict) : Prop := dget d KName = Some VNone.
-
-Theorem load_yield_accepted fmt fn cmds allow cs ts c it :
-  load fmt fn false cmds allow cs = Ok ts -> In c cs -> runs allow c = true -> yields c it ->
-  yield_accepted (c_name c) it.
-Proof.
-  intros H Hc Hr Hy. destruct (load_accepted _ _ _ _ _ _ H) as [_ A]. specialize (A c Hc Hr).
-  unfold yields in Hy. destruct (c_result c); try tauto. simpl in A. rewrite Forall_forall in A. auto.
-Qed.
 
 Lemma is_none_eq v : is_none v = true <-> v = VNone.
 Proof. destruct v; simpl; split; intros H; try discriminate; auto. Qed.
 
 Theorem load_dict_accepted fmt fn cmds allow cs ts c d :
-  load fmt fn false cmds allow cs = Ok ts -> In c cs -> runs allow c = true -> gives c d ->
+  load fmt fn L2 cmds allow cs = Ok ts -> In c cs -> runs allow c = true -> gives c d ->
   (forall n, dget d (KUnknown n) = None) /\
-  (forall a v, dget d (KAttr a) = Some v -> (a = AActions -> ~ group_definition d) -> accepts a v = true) /\
+  (forall a v, dget d (KAttr a) = Some v -> (a = AActions -> ~ group_definition d) -> type_ok a v = true) /\
   (~ group_definition d -> dhas d (KAttr AActions) = true) /\
   (c_result c = IDict d -> dhas d KName = false /\ forall v, dget d KBasename = Some v -> is_str v = true) /\
-  (yields c (IDict d) -> dget d KName = None -> exists s, dget d KBasename = Some (VStr s) /\ s <> EmptyString).
+  (yields c (IDict d) ->
+     (forall v, dget d KBasename = Some v -> is_str v = true \/ v = VNone) /\
+     (forall v, dget d KName = Some v -> is_str v = true \/ v = VNone) /\
+     (dget d KName = None -> exists s, dget d KBasename = Some (VStr s) /\ s <> EmptyString)).
 Proof.
   intros H Hc Hr [Hg|Hg].
   - destruct (load_accepted _ _ _ _ _ _ H) as [_ A]. specialize (A c Hc Hr). rewrite Hg in A. simpl in A.
@@ -2110,20 +2116,59 @@ Proof.
     + intros _. destruct Ac; auto. discriminate.
     + intros _. split; auto.
     + intros Hy. unfold yields in Hy. rewrite Hg in Hy. tauto.
-  - pose proof (load_yield_accepted _ _ _ _ _ _ _ _ H Hc Hr Hg) as A. simpl in A. unfold group_definition.
+  - assert (A : yield_accepted (IDict d)).
+    { destruct (load_accepted _ _ _ _ _ _ H) as [_ A]. specialize (A c Hc Hr).
+      unfold yields in Hg. destruct (c_result c); try tauto. simpl in A. rewrite Forall_forall in A. auto. }
+    simpl in A. destruct A as [Hb A]. unfold group_definition.
     assert (NR : c_result c <> IDict d).
     { intros E. unfold yields in Hg. rewrite E in Hg. tauto. }
+    assert (B : forall v, dget d KBasename = Some v -> is_str v = true \/ v = VNone).
+    { intros v Hv. unfold basename_ok, raw_basename in Hb. rewrite Hv in Hb. apply orb_true_iff in Hb.
+      destruct Hb as [Hb|Hb]; auto. right. apply is_none_eq; auto. }
     destruct (dget d KName) as [nm|] eqn:En.
-    + destruct A as [[U [Ac T]] _].
-      split; [exact U|]. split; [|split; [|split]].
-      * intros a v Hv Hnot. apply T; auto. intros Hn Ea. apply is_none_eq in Hn. subst nm. apply (Hnot Ea). reflexivity.
-      * intros Hnot. destruct Ac as [Ac|Ac]; auto. apply is_none_eq in Ac. subst nm. exfalso. apply Hnot. reflexivity.
-      * intros E. contradiction.
-      * intros _ E. discriminate.
-    + destruct A as [[U [Ac T]] B].
+    + destruct (is_none nm) eqn:Enn.
+      * destruct A as [U [Ac T]]. apply is_none_eq in Enn. subst nm.
+        split; [exact U|]. split; [|split; [|split]].
+        -- intros a v Hv Hnot. apply T; auto. intros _ Ea. apply (Hnot Ea). reflexivity.
+        -- intros Hnot. exfalso. apply Hnot. reflexivity.
+        -- intros E. contradiction.
+        -- intros _. split; [exact B|]. split; [|discriminate]. intros v Hv. inversion Hv. auto.
+      * destruct A as [Hs [U [Ac T]]].
+        split; [exact U|]. split; [|split; [|split]].
+        -- intros a v Hv _. apply T; auto. discriminate.
+        -- intros _. destruct Ac; auto. discriminate.
+        -- intros E. contradiction.
+        -- intros _. split; [exact B|]. split; [|discriminate]. intros v Hv. inversion Hv; subst. auto.
+    + destruct A as [[U [Ac T]] Bn].
       split; [exact U|]. split; [|split; [|split]].
       * intros a v Hv _. apply T; auto. discriminate.
       * intros _. destruct Ac; auto. discriminate.
       * intros E. contradiction.
-      * intros _ _. exact B.
+      * intros _. split; [exact B|]. split; [discriminate|]. intros _. exact Bn.
+Qed.
+
+(* dangling references, for a dict: every non-wild-card task_dep, every setup, every calc_dep and
+   the task id of every getargs value names a task of the accepted set *)
+Theorem load_dict_refs fmt fn cmds allow cs ts c d :
+  load fmt fn L2 cmds allow cs = Ok ts -> In c cs -> runs allow c = true -> gives c d -> ~ group_definition d ->
+  let names := map t_name ts in
+  (forall v x, dget d (KAttr ATaskDep) = Some v -> In x (elems v) -> star_in x = Ok false -> ref_exists names x) /\
+  (forall v x, dget d (KAttr ASetup) = Some v -> In x (elems v) -> ref_exists names x) /\
+  (forall v x, dget d (KAttr ACalcDep) = Some v -> In x (elems v) -> ref_exists names x) /\
+  (forall kv desc, dget d (KAttr AGetargs) = Some (VDict kv) -> In desc (map snd kv) ->
+                   exists p0, py_item0 desc = Ok p0 /\ ref_exists names p0).
+Proof.
+  intros H Hc Hr Hg Hn names.
+  assert (G : item_get (IDict d) = Some (dict_get d false)).
+  { simpl. unfold group_definition in Hn. destruct (dget d KName) as [nm|]; auto.
+    destruct (is_none nm) eqn:E; auto. apply is_none_eq in E. subst. exfalso. apply Hn. reflexivity. }
+  destruct (load_refs_checked _ _ _ _ _ _ _ _ _ H Hc Hr Hg G) as [R1 [R2 [R3 R4]]].
+  assert (V : forall a v, a <> AGetargs -> dget d (KAttr a) = Some v -> tvalue (dict_get d false) a = v).
+  { intros a v Ha Hv. unfold tvalue, targ, dict_get. simpl. rewrite Hv. destruct a; auto. congruence. }
+  split; [|split; [|split]].
+  - intros v x Hv Hx Hs. apply R1; auto. rewrite (V ATaskDep v); auto. discriminate.
+  - intros v x Hv Hx. apply R2. rewrite (V ASetup v); auto. discriminate.
+  - intros v x Hv Hx. apply R3. rewrite (V ACalcDep v); auto. discriminate.
+  - intros kv desc Hv Hin. apply (R4 kv desc); auto.
+    unfold tvalue, tgetargs, targ, dict_get. simpl. rewrite Hv. reflexivity.
 Qed.
